@@ -1,37 +1,51 @@
 //! C12 — checkpoint store: faithful round trip, integrity, bounded retention, true latest.
 //!
 //! Requests (all byte strings / names travel as lower-case hex of their UTF-8 bytes; `-` = empty list):
-//!   CKPT-ENC  <fields>                         => `OK <hex file bytes> | <load answer>`   (real save_checkpoint + load_checkpoint)
+//!   CKPT-ENC  nmax=<n> <fields>                => `OK <hex file bytes> | <load answer>` | `ERR save`   (real save_checkpoint + load_checkpoint)
 //!   CKPT-DEC  <hex file bytes>                 => `OK <fields>` | `ERR <class>` | `PANIC` | `ABORT` | `HANG`   (real load_checkpoint, child process)
-//!   CKPT-SAVE max=<none|n> c=<T|F> dir=<entries> <fields>   => `OK <entries after>`   (real save_checkpoint in a real directory;
-//!             entries = `<name>` or, with c=T, `<name>:<hex content>`: the model's file system then holds the real bytes
-//!             and the bytes of every file left after the clean-up are compared)
-//!   CKPT-SAVE-TIE max= pid=<hex> ts=<n> dir=<names>          => `OK own=<#own files left> other=<names of the rest>`
+//!   CKPT-DECBIG head=<hex|-> fill=<byte> total=<n> => the same for a (sparse) file of `total` bytes: `head`, then the fill byte
+//!   CKPT-SAVE max=<none|n> c=<T|F> en=<T|F> nmax=<n> dir=<entries|!missing|!notdir> <fields>   => `OK <entries after>` | `ERR save`
+//!             (real save_checkpoint in a real directory; entries = `<name>` or, with c=T, `<name>:<hex content>`: the model's
+//!             file system then holds the real bytes and the bytes of every file left after the clean-up are compared;
+//!             `en` = the manager's `enabled` flag, `nmax` = NAME_MAX of the scratch file system as measured at start-up;
+//!             `!missing` / `!notdir`: the configured directory does not exist / is a regular file)
+//!   CKPT-SAVE-TIE max= nmax= pid=<hex> ts=<n> dir=<names>    => `OK own=<#own files left> other=<names of the rest>`
 //!             (two spellings of one stamp, `7`/`07`, present: the survivor depends on read_dir order, so the save is
 //!             executed and judged by the oracle and the model is compared on the order-independent facts)
-//!   CKPT-SLL  max=<none|n> dir=<entries with content> <fields> => `OK latest=none` | `OK latest=<name> | <load answer>`
+//!   CKPT-SLL  max=<none|n> nmax= dir=<entries with content> <fields> => `OK latest=none` | `OK latest=<name> | <load answer>`
 //!             (real save_checkpoint ; find_latest_checkpoint ; load_checkpoint of the returned path)
-//!   CKPT-LATEST en=<T|F> pid=<hex> dir=<names> => `SOME <name>` | `NONE`
+//!   CKPT-LATEST en=<T|F> pid=<hex> dir=<names|!missing|!notdir> => `SOME <name>` | `NONE` | `ERR latest`
 //!   CKPT-LATEST-TIE en= pid= dir=<names>       => `STAMP <t>` | `NONE`
-//!   CKPT-CLEAR pid=<hex> dir=<names>           => `OK <names after>`
+//!   CKPT-CLEAR pid=<hex> dir=<names|!missing|!notdir>  => `OK <names after>` | `ERR clear`
 //!   CKPT-POLICY en= pol=<barrier|every:n|time:s|hybrid:b:s> idx= barrier= last=<none|ago:s|future:s>  => `T` | `F`
 //! <fields> = `pid=<hex> idx=<n> ts=<n> pc=<n> ck=<hex> em=<hex> tn=<n> lnt=<hex> pp=<n>`
-//! <names>  = comma-separated hex names sorted bytewise (regular files only; sub-directories are tracked by the
-//!            oracle — every operation must leave them alone and none is ever a checkpoint — and hidden from the model).
+//! <names>  = comma-separated hex names sorted bytewise: the REGULAR FILES of the directory after following symlinks
+//!            (plain files and symlinks to regular files). Everything else — sub-directories, symlinks to directories,
+//!            dangling symlinks, sockets — is tracked by the oracle (every operation must leave it alone, none of it
+//!            is ever a checkpoint) and hidden from the model.
 //!
 //! Oracles (never go through the model): round trip field-for-field; a loaded state has the protected
 //! fields and checksum of the state the file was derived from (so any alteration of them was rejected);
-//! never PANIC/ABORT/HANG (child with a 64 MiB address space); after a save at most `max` own files remain, they
-//! are the newest, nothing that is not a well-formed own file is touched (names AND bytes), the new file holds the
-//! encoding; latest = own well-formed file of greatest stamp; save;latest;load returns the saved state when it is
-//! the newest. "own well-formed file of pid" := regular file `checkpoint_<pid>_<digits>.bin` whose digits parse as u64.
+//! never PANIC/ABORT/HANG (child with a 64 MiB address space), also on files of several hundred MiB; after a save at most
+//! `max` own files remain, they are the newest, nothing that is not a well-formed own file is touched (names AND bytes),
+//! the new file holds the encoding; latest = own well-formed file of greatest stamp; save;latest;load returns the saved
+//! state when it is the newest, otherwise the state that was saved under the returned name; a save whose file name the
+//! file system cannot hold (`/`, NUL, longer than NAME_MAX) fails and changes nothing.
+//! "own well-formed file of pid" := regular file, or symlink to one, named `checkpoint_<pid>_<digits>.bin` whose digits
+//! parse as u64.
+//!
+//! Run-quality rules (no verdict may depend on load, timing or free space): a child that does not answer within the
+//! watchdog is re-executed alone with a longer one (HANG only if every attempt hangs); `ERR io` / set-up failures of the
+//! children are re-executed; a save that fails with ENOSPC/EDQUOT is dropped with a note; the clock-dependent policy
+//! cases are re-executed when the call took long or the wall clock jumped. Assumes a case-sensitive, non-normalising
+//! POSIX file system (Linux); a case-insensitive scratch file system is detected and noted.
 
 use crate::ctx::{Ctx, Rng, guarded, hex};
 use ironbeam::checkpoint::{
     CheckpointConfig, CheckpointManager, CheckpointMetadata, CheckpointPolicy, CheckpointState, compute_checksum,
 };
 use std::io::{BufRead, BufReader, Write};
-use std::path::Path;
+use std::path::{Path, PathBuf};
 use std::process::{Command, Stdio};
 use std::sync::mpsc;
 use std::time::Duration;
@@ -41,7 +55,10 @@ use std::time::Duration;
 /// request of more than about 32 MiB kills it. (Requests between the 1 MiB decode limit and that are not seen by
 /// the oracle, but the model answers `ERR limit` for them, so they surface as a model/implementation disagreement.)
 const CHILD_AS_LIMIT_KIB: u64 = 64 * 1024;
-const CHILD_WATCHDOG_S: u64 = 30;
+/// per answer line; a child that stays silent longer is killed and the case it was working on is RE-EXECUTED alone
+/// (`CHILD_RETRY_WATCHDOG_S`, twice) before it may be called a HANG: a stalled machine is not a verdict
+const CHILD_WATCHDOG_S: u64 = 120;
+const CHILD_RETRY_WATCHDOG_S: u64 = 600;
 
 #[derive(Clone, Debug, PartialEq, Eq)]
 pub struct St {
@@ -231,15 +248,83 @@ fn load_answer(r: Result<anyhow::Result<CheckpointState>, String>) -> String {
     }
 }
 
-/// scratch directory on tmpfs when available (save_checkpoint fsyncs every file)
+/// scratch directory on tmpfs when available (save_checkpoint fsyncs every file) and writable (a full /dev/shm
+/// falls back to the default temporary directory)
 fn tmpdir() -> tempfile::TempDir {
     let shm = Path::new("/dev/shm");
     if shm.is_dir() {
         if let Ok(t) = tempfile::tempdir_in(shm) {
-            return t;
+            let probe = t.path().join(".probe");
+            if std::fs::write(&probe, [0u8; 4096]).is_ok() {
+                let _ = std::fs::remove_file(&probe);
+                return t;
+            }
         }
     }
     tempfile::tempdir().expect("tempdir")
+}
+
+/// ENOSPC / EDQUOT somewhere in the cause chain: the scratch file system is full — an environment failure, not a verdict
+fn is_nospace(e: &anyhow::Error) -> bool {
+    e.chain().any(|c| c.downcast_ref::<std::io::Error>().is_some_and(|io| matches!(io.raw_os_error(), Some(28) | Some(122))))
+}
+
+/// facts about the scratch file system measured once per run, and the place symlink targets live (outside every
+/// checkpoint directory)
+pub struct Hx {
+    /// NAME_MAX: the longest entry name the scratch file system accepts (255 on Linux file systems)
+    nmax: usize,
+    case_insensitive: bool,
+    targets: tempfile::TempDir,
+    n_targets: usize,
+    /// keep one manager across consecutive saves of a history (the real usage) instead of a fresh one per operation
+    reuse: bool,
+    cached: Option<(PathBuf, Option<usize>, bool, CheckpointManager)>,
+}
+impl Hx {
+    fn probe(cx: &mut Ctx) -> Hx {
+        let t = tmpdir();
+        let fits = |n: usize| -> bool {
+            let p = t.path().join("n".repeat(n));
+            let ok = std::fs::write(&p, b"").is_ok();
+            let _ = std::fs::remove_file(&p);
+            ok
+        };
+        let (mut lo, mut hi) = (1usize, 4096usize); // fits(lo), !fits(hi)
+        if !fits(lo) {
+            cx.notes.push("scratch file system refuses even 1-byte names; NAME_MAX assumed 255".into());
+            lo = 255;
+        } else {
+            while hi - lo > 1 {
+                let mid = (lo + hi) / 2;
+                if fits(mid) { lo = mid } else { hi = mid }
+            }
+        }
+        let _ = std::fs::write(t.path().join("Aa"), b"");
+        let ci = t.path().join("aA").exists();
+        FOLD_CASE.store(ci, std::sync::atomic::Ordering::Relaxed);
+        if ci {
+            cx.notes.push("scratch file system is case-insensitive: case-variant look-alike names are not planted".into());
+        }
+        if !cfg!(target_os = "linux") {
+            cx.notes.push("not Linux: the check assumes a case-sensitive, non-normalising POSIX file system".into());
+        }
+        cx.count(&format!("env:NAME_MAX={lo}"));
+        Hx { nmax: lo, case_insensitive: ci, targets: tmpdir(), n_targets: 0, reuse: false, cached: None }
+    }
+    /// can the scratch file system hold an entry of this name in the checkpoint directory?
+    fn name_ok(&self, name: &str) -> bool {
+        !name.contains('/') && !name.contains('\0') && name.len() <= self.nmax
+    }
+    /// the manager for the next operation: a fresh one, or (reuse) the one of the previous operation when directory,
+    /// `max_checkpoints` and `enabled` are the same
+    fn mgr(&mut self, dir: &Path, max: Option<usize>, enabled: bool) -> &mut CheckpointManager {
+        let hit = self.reuse && self.cached.as_ref().is_some_and(|c| c.0 == dir && c.1 == max && c.2 == enabled);
+        if !hit {
+            self.cached = Some((dir.to_path_buf(), max, enabled, manager(dir, max, enabled)));
+        }
+        &mut self.cached.as_mut().unwrap().3
+    }
 }
 
 fn manager(dir: &Path, max: Option<usize>, enabled: bool) -> CheckpointManager {
@@ -257,6 +342,8 @@ fn manager(dir: &Path, max: Option<usize>, enabled: bool) -> CheckpointManager {
 pub fn tables(out: &mut String) {
     out.push_str("/-- `ironbeam::checkpoint::MAX_CHECKPOINT_DECODE_BYTES` of the running code (bincode `with_limit`) -/\n");
     out.push_str(&format!("def ckptDecodeLimit : Nat := {}\n\n", ironbeam::checkpoint::MAX_CHECKPOINT_DECODE_BYTES));
+    out.push_str("/-- `ironbeam::checkpoint::MAX_CHECKPOINT_FILE_BYTES` of the running code (`File::take` in `load_checkpoint`) -/\n");
+    out.push_str(&format!("def ckptReadCap : Nat := {}\n\n", ironbeam::checkpoint::MAX_CHECKPOINT_FILE_BYTES));
 }
 
 // ───────────────────────────── generators ─────────────────────────────
@@ -335,7 +422,7 @@ fn rand_state(rng: &mut Rng, max_str: usize, pid_safe: bool, big: bool) -> St {
 
 // ───────────────────────────── CKPT-ENC ─────────────────────────────
 
-fn one_enc(cx: &mut Ctx, st: &St, nontrivial: bool) {
+fn one_enc(cx: &mut Ctx, hx: &Hx, st: &St, nontrivial: bool) {
     let tmp = tmpdir();
     let real = st.to_real();
     let r = guarded(|| -> anyhow::Result<(std::path::PathBuf, Vec<u8>)> {
@@ -344,6 +431,28 @@ fn one_enc(cx: &mut Ctx, st: &St, nontrivial: bool) {
         let bytes = std::fs::read(&p)?;
         Ok((p, bytes))
     });
+    if let Ok(Err(e)) = &r {
+        if is_nospace(e) {
+            cx.count("env:save-dropped(no space left on the scratch file system)");
+            return;
+        }
+    }
+    let want_name = format!("checkpoint_{}_{}.bin", st.pid, st.ts);
+    if !hx.name_ok(&want_name) {
+        // the file system cannot hold this name: the save must fail and leave the directory empty
+        let answer = match &r {
+            Err(_) => "PANIC".to_string(),
+            Ok(Err(_)) => "ERR save".to_string(),
+            Ok(Ok(_)) => "OK (a file was written)".to_string(),
+        };
+        let i = cx.case(format!("CKPT-ENC nmax={} {}", hx.nmax, st.fields()), answer.clone(), nontrivial);
+        cx.count("enc:unusable-file-name");
+        let left = scan(tmp.path());
+        if answer != "ERR save" || !left.is_empty() {
+            cx.oracle_fail(i, "save-with-unusable-file-name-does-not-fail-cleanly", format!("{want_name:?}: {answer}, {} entries left", left.len()));
+        }
+        return;
+    }
     let (answer, saved) = match r {
         Err(_) => ("PANIC".to_string(), None),
         Ok(Err(_)) => ("ERR save".to_string(), None),
@@ -354,12 +463,11 @@ fn one_enc(cx: &mut Ctx, st: &St, nontrivial: bool) {
             (format!("OK {} | {}", hex(&bytes), la), Some((p, la)))
         }
     };
-    let i = cx.case(format!("CKPT-ENC {}", st.fields()), answer.clone(), nontrivial);
+    let i = cx.case(format!("CKPT-ENC nmax={} {}", hx.nmax, st.fields()), answer.clone(), nontrivial);
     cx.count(&format!("enc:{}", answer.split(' ').next().unwrap_or("?")));
     match saved {
         None => cx.oracle_fail(i, "save-fails-on-valid-state", answer),
         Some((p, la)) => {
-            let want_name = format!("checkpoint_{}_{}.bin", st.pid, st.ts);
             if p.file_name().and_then(|n| n.to_str()) != Some(want_name.as_str()) {
                 cx.oracle_fail(i, "save-file-name", format!("{:?} != {want_name}", p.file_name()));
             }
@@ -390,23 +498,26 @@ struct DecCase {
     tag: &'static str,
 }
 
-/// child: `ibh child c12 dec <infile>`: one hex line per case in, `<k> <answer>` per case out.
+/// child: `ibh child c12 dec <infile> [start [count]]`: one hex line per case in, `<k> <answer>` per case out.
+/// `ibh child c12 decfile <path>`: load one file that already exists (huge / sparse files that cannot travel as hex).
+/// Exit code 3 = the scratch file could not be written (environment), 2 = bad usage.
 pub fn child(args: &[String]) -> i32 {
     match args.first().map(String::as_str) {
         Some("dec") => {
             let Some(infile) = args.get(1) else { return 2 };
             let start: usize = args.get(2).and_then(|s| s.parse().ok()).unwrap_or(0);
+            let count: usize = args.get(3).and_then(|s| s.parse().ok()).unwrap_or(usize::MAX);
             // streamed: the child's address space is capped far below the size of the case file
-            let Ok(file) = std::fs::File::open(infile) else { return 2 };
+            let Ok(file) = std::fs::File::open(infile) else { return 3 };
             let tmp = tmpdir();
             let m = manager(tmp.path(), None, true);
             let path = tmp.path().join("case.bin");
             let out = std::io::stdout();
-            for (k, line) in BufReader::new(file).lines().enumerate().skip(start) {
-                let Ok(line) = line else { return 2 };
+            for (k, line) in BufReader::new(file).lines().enumerate().skip(start).take(count) {
+                let Ok(line) = line else { return 3 };
                 let Some(bytes) = unhex(line.trim()) else { return 2 };
                 if std::fs::write(&path, &bytes).is_err() {
-                    return 2;
+                    return 3;
                 }
                 let a = load_answer(guarded(|| m.load_checkpoint(&path)));
                 let mut o = out.lock();
@@ -415,85 +526,192 @@ pub fn child(args: &[String]) -> i32 {
             }
             0
         }
+        Some("decfile") => {
+            let Some(path) = args.get(1) else { return 2 };
+            let tmp = tmpdir();
+            let m = manager(tmp.path(), None, true);
+            let a = load_answer(guarded(|| m.load_checkpoint(Path::new(path))));
+            println!("0 {a}");
+            0
+        }
         _ => 2,
     }
 }
 
-/// Run all decode cases in watchdog children with an address-space limit. A child that dies on case k
-/// yields ABORT for k (HANG if the watchdog fired) and a fresh child continues at k+1.
-fn run_dec_children(cases: &[DecCase], work: &Path) -> Vec<String> {
-    let infile = work.join("dec_cases.hex");
-    {
-        let mut f = std::io::BufWriter::new(std::fs::File::create(&infile).expect("dec infile"));
-        for c in cases {
-            writeln!(f, "{}", hex(&c.bytes)).unwrap();
-        }
-        f.flush().unwrap();
-    }
+/// `ibh child c12 <args>` under an address-space limit (`sh -c 'ulimit -v ..'`), or unlimited
+fn child_cmd(limit_kib: Option<u64>, args: &[String]) -> Command {
     let exe = std::env::current_exe().expect("current_exe");
-    // preflight: under the address-space limit the child must be able to start and load a pristine file
-    {
-        let pre = work.join("dec_preflight.hex");
-        std::fs::write(&pre, format!("{}\n", hex(&short_base_a().gen_encode().0))).expect("preflight file");
-        let out = Command::new("sh")
-            .arg("-c")
-            .arg(format!("ulimit -v {CHILD_AS_LIMIT_KIB} && exec \"$0\" child c12 dec \"$1\" 0"))
-            .arg(&exe)
-            .arg(&pre)
-            .stderr(Stdio::null())
-            .output()
-            .expect("spawn preflight child");
-        let text = String::from_utf8_lossy(&out.stdout);
-        assert!(text.starts_with("0 OK "), "ibh child c12 dec: preflight under ulimit -v {CHILD_AS_LIMIT_KIB} failed ({:?}, {text:?}) - raise CHILD_AS_LIMIT_KIB", out.status);
-        let _ = std::fs::remove_file(&pre);
+    match limit_kib {
+        Some(kib) => {
+            let mut c = Command::new("sh");
+            c.arg("-c").arg(format!("ulimit -v {kib} && exec \"$0\" child c12 \"$@\"")).arg(&exe);
+            c.args(args);
+            c
+        }
+        None => {
+            let mut c = Command::new(&exe);
+            c.arg("child").arg("c12");
+            c.args(args);
+            c
+        }
     }
-    let mut answers: Vec<String> = Vec::with_capacity(cases.len());
+}
+
+enum ChildEnd {
+    /// the process ended (exit code if it exited by itself)
+    Exited(Option<i32>),
+    /// no answer line within the watchdog: killed
+    Silent,
+    /// it could not be started at all
+    NotStarted,
+}
+
+/// run one child, collecting its `<k> <answer>` lines in order starting at `first`
+fn run_child(limit_kib: Option<u64>, args: &[String], first: usize, watchdog_s: u64) -> (Vec<String>, ChildEnd) {
+    let mut answers = vec![];
+    let Ok(mut child) = child_cmd(limit_kib, args).stdout(Stdio::piped()).stderr(Stdio::null()).spawn() else {
+        return (answers, ChildEnd::NotStarted);
+    };
+    let stdout = child.stdout.take().unwrap();
+    let (tx, rx) = mpsc::channel::<String>();
+    let reader = std::thread::spawn(move || {
+        for line in BufReader::new(stdout).lines().map_while(Result::ok) {
+            if tx.send(line).is_err() {
+                break;
+            }
+        }
+    });
+    let mut silent = false;
+    loop {
+        match rx.recv_timeout(Duration::from_secs(watchdog_s)) {
+            Ok(line) => {
+                let (k, a) = line.split_once(' ').unwrap_or((&line, ""));
+                if k.parse::<usize>().ok() == Some(first + answers.len()) {
+                    answers.push(a.to_string());
+                }
+            }
+            Err(mpsc::RecvTimeoutError::Timeout) => {
+                silent = true;
+                let _ = child.kill();
+                break;
+            }
+            Err(mpsc::RecvTimeoutError::Disconnected) => break,
+        }
+    }
+    let status = child.wait().ok();
+    let _ = reader.join();
+    (answers, if silent { ChildEnd::Silent } else { ChildEnd::Exited(status.and_then(|s| s.code())) })
+}
+
+/// the address-space limit the children run under: the smallest of 64 / 128 / 256 / 512 MiB under which a child can
+/// start and load a pristine file (64 MiB on the reference machine); `None` + a note when no limited child starts
+/// (no `sh`, no `ulimit -v`, a very different allocator): the cases are then run unlimited — hostile length prefixes
+/// still fail at the decode limit, only the "a request between 1 MiB and the address space" visibility is lost.
+fn child_limit(cx: &mut Ctx, work: &Path) -> Option<u64> {
+    let pre = work.join("dec_preflight.hex");
+    if std::fs::write(&pre, format!("{}\n", hex(&short_base_a().gen_encode().0))).is_err() {
+        cx.notes.push("decode children: preflight file could not be written; children run without an address-space limit".into());
+        return None;
+    }
+    let args = vec!["dec".to_string(), pre.to_string_lossy().into_owned(), "0".to_string()];
+    let mut chosen = None;
+    for mult in [1u64, 2, 4, 8] {
+        let kib = CHILD_AS_LIMIT_KIB * mult;
+        let (a, _) = run_child(Some(kib), &args, 0, CHILD_RETRY_WATCHDOG_S);
+        if a.first().is_some_and(|x| x.starts_with("OK ")) {
+            chosen = Some(kib);
+            break;
+        }
+    }
+    let _ = std::fs::remove_file(&pre);
+    match chosen {
+        Some(kib) => {
+            if kib != CHILD_AS_LIMIT_KIB {
+                cx.notes.push(format!("decode children need more than {} KiB of address space to start; limit raised to {kib} KiB", CHILD_AS_LIMIT_KIB));
+            }
+            cx.count(&format!("env:child-address-space-limit-KiB={kib}"));
+        }
+        None => cx.notes.push("decode children do not start under any address-space limit (sh / ulimit -v unavailable?); run unlimited".into()),
+    }
+    chosen
+}
+
+/// Run all decode cases in watchdog children with an address-space limit. A child that dies on case k yields ABORT
+/// for k and a fresh child continues at k+1. A child that falls silent is killed and case k is RE-EXECUTED alone with a
+/// long watchdog, twice: HANG only if it never answers. Environment failures (scratch file not writable, child not
+/// startable) are retried; if they persist the remaining cases are dropped with a note (`None`) — never a verdict.
+fn run_dec_children(cx: &mut Ctx, cases: &[DecCase], work: &Path, limit: Option<u64>) -> Vec<Option<String>> {
+    let infile = work.join("dec_cases.hex");
+    let written = (|| -> std::io::Result<()> {
+        let mut f = std::io::BufWriter::new(std::fs::File::create(&infile)?);
+        for c in cases {
+            writeln!(f, "{}", hex(&c.bytes))?;
+        }
+        f.flush()
+    })();
+    if written.is_err() {
+        cx.notes.push(format!("decode cases: the case file could not be written ({} cases dropped)", cases.len()));
+        return vec![None; cases.len()];
+    }
+    let inpath = infile.to_string_lossy().into_owned();
+    let mut answers: Vec<Option<String>> = Vec::with_capacity(cases.len());
+    let mut env_failures = 0usize;
     while answers.len() < cases.len() {
         let start = answers.len();
-        let mut child = Command::new("sh")
-            .arg("-c")
-            .arg(format!("ulimit -v {CHILD_AS_LIMIT_KIB} && exec \"$0\" child c12 dec \"$1\" \"$2\""))
-            .arg(&exe)
-            .arg(&infile)
-            .arg(start.to_string())
-            .stdout(Stdio::piped())
-            .stderr(Stdio::null())
-            .spawn()
-            .expect("spawn child");
-        let stdout = child.stdout.take().unwrap();
-        let (tx, rx) = mpsc::channel::<String>();
-        let reader = std::thread::spawn(move || {
-            for line in BufReader::new(stdout).lines().map_while(Result::ok) {
-                if tx.send(line).is_err() {
+        let (got, end) = run_child(limit, &["dec".into(), inpath.clone(), start.to_string()], start, CHILD_WATCHDOG_S);
+        answers.extend(got.into_iter().map(Some));
+        if answers.len() >= cases.len() {
+            break;
+        }
+        let k = answers.len();
+        match end {
+            ChildEnd::Exited(Some(3)) | ChildEnd::Exited(Some(2)) | ChildEnd::NotStarted => {
+                env_failures += 1;
+                if env_failures > 5 {
+                    cx.notes.push(format!("decode children: repeated set-up failure at case {k}; {} cases dropped", cases.len() - k));
+                    answers.resize(cases.len(), None);
                     break;
                 }
+                std::thread::sleep(Duration::from_millis(200 * env_failures as u64));
             }
-        });
-        let mut hung = false;
-        loop {
-            match rx.recv_timeout(Duration::from_secs(CHILD_WATCHDOG_S)) {
-                Ok(line) => {
-                    let (k, a) = line.split_once(' ').unwrap_or((&line, ""));
-                    if k.parse::<usize>().ok() == Some(answers.len()) {
-                        answers.push(a.to_string());
+            ChildEnd::Exited(_) => {
+                // the child died while working on case k: re-execute k alone to confirm
+                let (again, end2) = run_child(limit, &["dec".into(), inpath.clone(), k.to_string(), "1".into()], k, CHILD_RETRY_WATCHDOG_S);
+                match (again.into_iter().next(), end2) {
+                    (Some(a), _) => {
+                        cx.count("dec:child-death-not-reproduced(answer of the re-execution taken)");
+                        answers.push(Some(a));
+                    }
+                    (None, ChildEnd::Exited(Some(3))) | (None, ChildEnd::Exited(Some(2))) | (None, ChildEnd::NotStarted) => env_failures += 1,
+                    (None, ChildEnd::Silent) => answers.push(Some("HANG".into())),
+                    (None, ChildEnd::Exited(_)) => answers.push(Some("ABORT".into())),
+                }
+            }
+            ChildEnd::Silent => {
+                let mut verdict: Option<String> = None;
+                for _ in 0..2 {
+                    let (again, end2) = run_child(limit, &["dec".into(), inpath.clone(), k.to_string(), "1".into()], k, CHILD_RETRY_WATCHDOG_S);
+                    match (again.into_iter().next(), end2) {
+                        (Some(a), _) => {
+                            verdict = Some(a);
+                            break;
+                        }
+                        (None, ChildEnd::Silent) => continue,
+                        (None, ChildEnd::Exited(Some(3))) | (None, ChildEnd::Exited(Some(2))) | (None, ChildEnd::NotStarted) => continue,
+                        (None, ChildEnd::Exited(_)) => {
+                            verdict = Some("ABORT".into());
+                            break;
+                        }
                     }
                 }
-                Err(mpsc::RecvTimeoutError::Timeout) => {
-                    hung = true;
-                    let _ = child.kill();
-                    break;
+                match verdict {
+                    Some(a) => {
+                        cx.notes.push(format!("decode child silent for {CHILD_WATCHDOG_S} s at case {k} (machine stall); the case answered when re-executed alone"));
+                        answers.push(Some(a));
+                    }
+                    None => answers.push(Some("HANG".into())),
                 }
-                Err(mpsc::RecvTimeoutError::Disconnected) => break,
             }
-        }
-        let status = child.wait().ok();
-        let _ = reader.join();
-        if status.and_then(|s| s.code()) == Some(2) {
-            panic!("ibh child c12 dec: set-up failure (exit 2) at case {}", answers.len());
-        }
-        if answers.len() < cases.len() {
-            // the child stopped before finishing: the case it was working on killed it
-            answers.push(if hung { "HANG".into() } else { "ABORT".into() });
         }
     }
     let _ = std::fs::remove_file(&infile);
@@ -651,6 +869,34 @@ fn gen_dec_cases(cx: &mut Ctx) -> Vec<DecCase> {
             hostile_lengths().len(),
             bases.len()
         ));
+        // the genuine checksum with something appended / prepended / doubled: "checksum altered" must be rejected
+        // (a comparison after trim(), a starts_with / contains test would accept these)
+        let mut n_ck = 0usize;
+        for (base, _, _) in &bases {
+            let mut alts: Vec<String> = vec![];
+            for extra in [" ", "\n", "\t", "\0", "0", "f", "\u{a0}"] {
+                alts.push(format!("{}{extra}", base.ck));
+                alts.push(format!("{extra}{}", base.ck));
+            }
+            alts.push(format!("{}{}", base.ck, base.ck));
+            alts.push(format!(" {} ", base.ck));
+            alts.push(base.ck[..63].to_string());
+            alts.push(base.ck[1..].to_string());
+            for ck in alts {
+                let t = St { ck, ..base.clone() };
+                v.push(DecCase { bytes: t.gen_encode().0, base: Some(base.clone()), pristine: false, tag: "corpus:checksum-padded" });
+                n_ck += 1;
+            }
+        }
+        cx.exhaustive_blocks.push(format!(
+            "CKPT-DEC: the genuine checksum with one of 7 characters (space, newline, tab, NUL, '0', 'f', U+00A0) appended / prepended, doubled, wrapped in spaces, first / last character dropped, re-encoded into each of {} states = {n_ck} files",
+            bases.len()
+        ));
+        // valid files whose strings need the 5-byte length prefix (marker 252) and the 3-byte one at its maximum
+        for (n_em, n_lnt) in [(70001usize, 65535usize), (65536, 300)] {
+            let t = St { em: "e".repeat(n_em), lnt: "\u{e9}".repeat(n_lnt / 2), ..short_base_a() }.with_valid_checksum();
+            v.push(DecCase { bytes: t.gen_encode().0, base: Some(t), pristine: true, tag: "corpus:valid-with-64KiB+-strings" });
+        }
         v.push(DecCase { bytes: vec![], base: None, pristine: false, tag: "corpus:empty" });
         for m in 251..=255u8 {
             v.push(DecCase { bytes: vec![m], base: None, pristine: false, tag: "corpus:lonely-marker" });
@@ -802,7 +1048,22 @@ fn gen_dec_cases(cx: &mut Ctx) -> Vec<DecCase> {
             11 => {
                 // re-encode with the checksum replaced (empty / truncated / upper-cased / of another state / one char changed)
                 let mut t = st.clone();
-                match cx.rng.below(5) {
+                match cx.rng.below(10) {
+                    5 => {
+                        // the genuine checksum followed by one more character (white space, hex digit, anything)
+                        let extra = *cx.rng.pick(&[' ', '\n', '\t', '\0', '0', 'f', 'x', '\u{a0}', '\u{2028}']);
+                        t.ck.push(extra);
+                    }
+                    6 => {
+                        let extra = *cx.rng.pick(&[' ', '\n', '0', 'a', '\u{feff}']);
+                        t.ck.insert(0, extra);
+                    }
+                    7 => t.ck = format!("{}{}", t.ck, t.ck),
+                    8 => {
+                        let c = rand_char(&mut cx.rng, false);
+                        t.ck.push(c);
+                    }
+                    9 => t.ck = format!(" {} ", t.ck),
                     0 => t.ck.clear(),
                     1 => {
                         t.ck.pop();
@@ -835,9 +1096,13 @@ fn run_dec(cx: &mut Ctx) {
     let cases = gen_dec_cases(cx);
     let work = std::env::temp_dir().join(format!("ibh-c12-{}-{}", std::process::id(), cx.seed));
     let _ = std::fs::create_dir_all(&work);
-    let answers = run_dec_children(&cases, &work);
-    let _ = std::fs::remove_dir_all(&work);
+    let limit = child_limit(cx, &work);
+    let answers = run_dec_children(cx, &cases, &work, limit);
     for (c, a) in cases.iter().zip(answers.iter()) {
+        let Some(a) = a else {
+            cx.count("dec:dropped(environment)");
+            continue;
+        };
         let nt = !c.bytes.is_empty();
         let i = cx.case(format!("CKPT-DEC {}", if c.bytes.is_empty() { "-".to_string() } else { hex(&c.bytes) }), a.clone(), nt);
         cx.count(&format!("dec:in:{}", c.tag));
@@ -845,39 +1110,208 @@ fn run_dec(cx: &mut Ctx) {
         cx.count(&format!("dec:out:{class}"));
         dec_oracle(cx, i, c, a);
     }
+    run_decbig(cx, &work, limit);
+    let _ = std::fs::remove_dir_all(&work);
+}
+
+/// the longest file a record that passes the decode limit can occupy: every integer and length prefix as a 9-byte
+/// varint (non-canonical for the lengths), strings filling the limit exactly: limit + 8 bytes, claims = limit
+fn maximal_record(extra: usize) -> (St, Vec<u8>) {
+    let limit = ironbeam::checkpoint::MAX_CHECKPOINT_DECODE_BYTES;
+    let mut st = St { pid: String::new(), idx: u64::MAX, ts: u64::MAX - 1, pc: 1 << 40, ck: String::new(), em: String::new(), tn: 1 << 33, lnt: String::new(), pp: 7 }
+        .with_valid_checksum();
+    st.lnt = "a".repeat(limit - 65 - st.ck.len() + extra);
+    let mut out = vec![];
+    let wide = |out: &mut Vec<u8>, v: u64| {
+        out.push(253);
+        out.extend_from_slice(&v.to_le_bytes());
+    };
+    wide(&mut out, 0);
+    wide(&mut out, st.idx);
+    wide(&mut out, st.ts);
+    wide(&mut out, st.pc);
+    wide(&mut out, st.ck.len() as u64);
+    out.extend_from_slice(st.ck.as_bytes());
+    wide(&mut out, 0);
+    wide(&mut out, st.tn);
+    wide(&mut out, st.lnt.len() as u64);
+    out.extend_from_slice(st.lnt.as_bytes());
+    out.push(st.pp);
+    (st, out)
+}
+
+/// CKPT-DECBIG: files around the read cap and sparse files of several hundred MiB, loaded BY PATH in the
+/// address-space-limited child. Before the read-cap `fix:` `load_checkpoint` read the whole file into memory first.
+fn run_decbig(cx: &mut Ctx, work: &Path, limit: Option<u64>) {
+    let cap = ironbeam::checkpoint::MAX_CHECKPOINT_FILE_BYTES as usize;
+    let dlimit = ironbeam::checkpoint::MAX_CHECKPOINT_DECODE_BYTES;
+    let a = short_base_a();
+    let b = short_base_b();
+    let (mx, mx_bytes) = maximal_record(0);
+    let (_, over_bytes) = maximal_record(1);
+    let mib = 1usize << 20;
+    // (head, base state if the file must load as it, fill, total, tag)
+    let mut files: Vec<(Vec<u8>, Option<St>, u8, usize, &'static str)> = vec![
+        (a.gen_encode().0, Some(a.clone()), 0, 256 * mib, "sparse-256MiB-behind-a-valid-record"),
+        (vec![], None, 0, 300 * mib, "sparse-300MiB-of-zeros"),
+        (b.gen_encode().0, Some(b.clone()), 0xff, 64 * mib + 1, "64MiB+1-of-0xff-behind-a-valid-record"),
+        (a.gen_encode().0[..40].to_vec(), None, 0, 128 * mib, "sparse-128MiB-behind-a-truncated-record"),
+        (mx_bytes.clone(), Some(mx.clone()), 0, mx_bytes.len(), "maximal-record(limit+8 bytes, claims = limit)"),
+        (mx_bytes.clone(), Some(mx.clone()), 0, 200 * mib, "maximal-record-then-200MiB"),
+        (over_bytes.clone(), None, 0, over_bytes.len(), "record-one-byte-over-the-decode-limit"),
+    ];
+    for total in [dlimit + 7, dlimit + 8, dlimit + 9, cap - 1, cap, cap + 1] {
+        files.push((a.gen_encode().0, Some(a.clone()), 0, total, "valid-record-padded-to-the-cap-boundary"));
+        files.push((mx_bytes[..mx_bytes.len().min(total)].to_vec(), if total >= mx_bytes.len() { Some(mx.clone()) } else { None }, 0, total.max(mx_bytes.len().min(total)), "maximal-record-cut-or-padded-at-the-cap-boundary"));
+    }
+    if cx.tier != crate::ctx::Tier::Quick {
+        files.push((a.gen_encode().0, Some(a.clone()), 0, 2048 * mib, "sparse-2GiB-behind-a-valid-record"));
+        files.push((b"   ".to_vec(), None, 0, 1024 * mib + 3, "sparse-1GiB+3-behind-three-spaces"));
+    }
+    cx.exhaustive_blocks.push(format!(
+        "CKPT-DECBIG: {} files loaded by path in the {}: sparse files of 64 MiB .. {} behind a valid / truncated / empty record, the longest record that passes the decode limit ({} bytes = limit + 8) alone and followed by 200 MiB, one byte over it, and valid / maximal records cut or padded to limit+7, +8, +9, cap-1, cap, cap+1 bytes (cap = {cap})",
+        files.len(),
+        limit.map_or("unlimited child".to_string(), |k| format!("{} MiB address space", k / 1024)),
+        if cx.tier == crate::ctx::Tier::Quick { "300 MiB" } else { "2 GiB" },
+        mx_bytes.len()
+    ));
+    let path = work.join("big.bin");
+    for (head, base, fill, total, tag) in files {
+        let made = (|| -> std::io::Result<()> {
+            let _ = std::fs::remove_file(&path);
+            let mut f = std::fs::File::create(&path)?;
+            f.write_all(&head)?;
+            let rest = total - head.len();
+            if fill == 0 {
+                f.set_len(total as u64)?; // sparse
+            } else {
+                let chunk = vec![fill; mib.min(rest.max(1))];
+                let mut left = rest;
+                while left > 0 {
+                    let n = left.min(chunk.len());
+                    f.write_all(&chunk[..n])?;
+                    left -= n;
+                }
+            }
+            f.flush()
+        })();
+        if made.is_err() {
+            let _ = std::fs::remove_file(&path);
+            cx.count("decbig:dropped(file could not be created: no space?)");
+            continue;
+        }
+        let args = vec!["decfile".to_string(), path.to_string_lossy().into_owned()];
+        let run = |wd: u64| -> String {
+            let (a, end) = run_child(limit, &args, 0, wd);
+            match (a.into_iter().next(), end) {
+                (Some(x), _) => x,
+                (None, ChildEnd::Silent) => "HANG".into(),
+                (None, ChildEnd::NotStarted) => "ERR io".into(),
+                (None, ChildEnd::Exited(_)) => "ABORT".into(),
+            }
+        };
+        let bad = |x: &str| x == "HANG" || x == "ABORT" || x == "PANIC" || x == "ERR io";
+        let mut ans = run(CHILD_WATCHDOG_S);
+        if bad(&ans) {
+            // confirm by re-execution: a stalled machine or a transient I/O error is not a verdict
+            let again = run(CHILD_RETRY_WATCHDOG_S);
+            if again != ans {
+                cx.notes.push(format!("CKPT-DECBIG {tag}: first execution answered {ans}, the re-execution {again} (taken)"));
+                ans = again;
+            }
+        }
+        let _ = std::fs::remove_file(&path);
+        let i = cx.case(
+            format!("CKPT-DECBIG head={} fill={} total={}", if head.is_empty() { "-".to_string() } else { hex(&head) }, fill, total),
+            ans.clone(),
+            true,
+        );
+        cx.count(&format!("decbig:{tag}"));
+        if bad(&ans) {
+            cx.oracle_fail(i, "load-of-large-file-crashes-or-exhausts-memory(read buffer of the file's size)", format!("{ans} on a {total}-byte file ({tag})"));
+            continue;
+        }
+        let c = DecCase { bytes: vec![], base: base.clone(), pristine: base.is_some(), tag };
+        dec_oracle(cx, i, &c, &ans);
+    }
 }
 
 // ───────────────────────────── histories ─────────────────────────────
 
-/// directory listing with contents, sorted bytewise by name
-fn listing_c(dir: &Path) -> Vec<(String, Vec<u8>)> {
-    let mut v: Vec<(String, Vec<u8>)> = std::fs::read_dir(dir)
+/// what an entry of the checkpoint directory is (symlinks followed once for the `LinkTo*` kinds)
+#[derive(Clone, Copy, PartialEq, Eq, Debug, PartialOrd, Ord)]
+enum Kind {
+    File,
+    LinkToFile,
+    Dir,
+    LinkToDir,
+    Dangling,
+    Special,
+}
+#[derive(Clone, Debug, PartialEq, Eq)]
+struct Entry {
+    name: String,
+    kind: Kind,
+    /// bytes of a regular file (through the symlink for `LinkToFile`)
+    content: Vec<u8>,
+    /// names inside a sub-directory (a save must never write there)
+    inner: Vec<String>,
+}
+
+/// the whole directory, sorted bytewise by name
+fn scan(dir: &Path) -> Vec<Entry> {
+    let mut v: Vec<Entry> = std::fs::read_dir(dir)
         .map(|rd| {
             rd.filter_map(Result::ok)
-                .filter(|e| !e.path().is_dir())
-                .filter_map(|e| e.file_name().to_str().map(str::to_string))
-                .map(|n| {
-                    let c = std::fs::read(dir.join(&n)).unwrap_or_default();
-                    (n, c)
+                .filter_map(|e| {
+                    let name = e.file_name().to_str()?.to_string();
+                    let p = e.path();
+                    let lm = std::fs::symlink_metadata(&p).ok()?;
+                    let kind = if lm.file_type().is_symlink() {
+                        match std::fs::metadata(&p) {
+                            Ok(m) if m.is_file() => Kind::LinkToFile,
+                            Ok(m) if m.is_dir() => Kind::LinkToDir,
+                            Ok(_) => Kind::Special,
+                            Err(_) => Kind::Dangling,
+                        }
+                    } else if lm.is_file() {
+                        Kind::File
+                    } else if lm.is_dir() {
+                        Kind::Dir
+                    } else {
+                        Kind::Special
+                    };
+                    let content = if matches!(kind, Kind::File | Kind::LinkToFile) { std::fs::read(&p).unwrap_or_default() } else { vec![] };
+                    let mut inner: Vec<String> = if kind == Kind::Dir {
+                        std::fs::read_dir(&p).map(|rd| rd.filter_map(Result::ok).filter_map(|x| x.file_name().to_str().map(str::to_string)).collect()).unwrap_or_default()
+                    } else {
+                        vec![]
+                    };
+                    inner.sort();
+                    Some(Entry { name, kind, content, inner })
                 })
                 .collect()
         })
         .unwrap_or_default();
-    v.sort_by(|a, b| a.0.as_bytes().cmp(b.0.as_bytes()));
+    v.sort_by(|a, b| a.name.as_bytes().cmp(b.name.as_bytes()));
     v
 }
-/// sub-DIRECTORIES of the checkpoint directory (sorted). A directory is never a checkpoint, whatever its name: the
-/// listings given to the model contain regular files only, and every operation must leave the directories alone.
-fn subdirs(dir: &Path) -> Vec<String> {
-    let mut v: Vec<String> = std::fs::read_dir(dir)
-        .map(|rd| rd.filter_map(Result::ok).filter(|e| e.path().is_dir()).filter_map(|e| e.file_name().to_str().map(str::to_string)).collect())
-        .unwrap_or_default();
-    v.sort();
-    v
+/// the regular files (symlinks to regular files included) with their bytes: what the model's file system holds
+fn files_of(es: &[Entry]) -> Vec<(String, Vec<u8>)> {
+    es.iter().filter(|e| matches!(e.kind, Kind::File | Kind::LinkToFile)).map(|e| (e.name.clone(), e.content.clone())).collect()
 }
-fn dirs_oracle(cx: &mut Ctx, i: usize, before: &[String], after: &[String]) {
+/// everything else: sub-directories (with what is inside), symlinks to directories, dangling symlinks, sockets.
+/// None of it is ever a checkpoint, whatever its name, and every operation must leave it alone.
+fn others_of(es: &[Entry]) -> Vec<Entry> {
+    es.iter().filter(|e| !matches!(e.kind, Kind::File | Kind::LinkToFile)).cloned().collect()
+}
+fn listing_c(dir: &Path) -> Vec<(String, Vec<u8>)> {
+    files_of(&scan(dir))
+}
+fn others_oracle(cx: &mut Ctx, i: usize, before: &[Entry], after: &[Entry]) {
     if before != after {
-        cx.oracle_fail(i, "operation-removes-or-creates-a-directory", format!("directories before {before:?} after {after:?}"));
+        let show = |v: &[Entry]| v.iter().map(|e| format!("{:?}:{:?}{:?}", e.name, e.kind, e.inner)).collect::<Vec<_>>().join(" ");
+        cx.oracle_fail(i, "operation-removes-creates-or-fills-a-directory-or-special-entry", format!("before [{}] after [{}]", show(before), show(after)));
     }
 }
 fn names_of(v: &[(String, Vec<u8>)]) -> Vec<String> {
@@ -896,7 +1330,8 @@ fn enc_dir(v: &[(String, Vec<u8>)], with_content: bool) -> String {
         .collect::<Vec<_>>()
         .join(",")
 }
-/// the oracle's definition of "a well-formed checkpoint file of pipeline `pid`" and its stamp
+/// the oracle's definition of "a well-formed checkpoint file NAME of pipeline `pid`" and its stamp; a checkpoint is a
+/// regular file (or a symlink to one: `Path::is_file` follows symlinks) with such a name
 fn own_stamp(pid: &str, name: &str) -> Option<u64> {
     let rest = name.strip_prefix("checkpoint_")?.strip_prefix(pid)?.strip_prefix('_')?.strip_suffix(".bin")?;
     if rest.is_empty() || !rest.bytes().all(|b| b.is_ascii_digit()) {
@@ -914,9 +1349,99 @@ fn has_tie(own: &[(u64, String)]) -> bool {
 }
 
 const HIST_PIDS: &[&str] = &["p", "p_x", "p_7", "q", "", "p.bin", "a.b", "π", "p_x_y", "7"];
+
+/// a pipeline id no normalisation leaves alone: mixed case, white space, long, non-ASCII, containing the literal
+/// parts of the file name; always usable as part of a file name (no `/`, no NUL, at most 190 bytes)
+fn rand_pid(rng: &mut Rng) -> String {
+    let hexs = |rng: &mut Rng, n: usize| -> String { (0..n).map(|_| char::from_digit(rng.below(16) as u32, 16).unwrap()).collect() };
+    match rng.below(9) {
+        0 => rand_string(rng, 180, true, false),
+        1 => rand_string(rng, 24, true, false),
+        2 => (0..1 + rng.below(8)).map(|_| *rng.pick(&['a', 'B', 'c', 'D', 'P', 'p', 'Q', 'x', 'Z', 'é', 'É', 'ß', 'İ'])).collect(),
+        3 => hexs(rng, 16), // the shape of `generate_pipeline_id`
+        4 => {
+            let n = 17 + rng.below(48);
+            hexs(rng, n)
+        }
+        5 => {
+            let a = *rng.pick(&["", " ", "\t", "\n", "  "]);
+            let n = 1 + rng.below(6);
+            let b = hexs(rng, n);
+            let c = *rng.pick(&[" ", "\t", "\n", "  ", "\u{a0}"]);
+            format!("{a}{b}{c}")
+        }
+        6 => {
+            let a = *rng.pick(&["checkpoint_", "checkpoint", "x_checkpoint_", ""]);
+            let n = rng.below(5);
+            let b = hexs(rng, n);
+            let c = *rng.pick(&["_checkpoint_", ".bin", "_7.bin", "_"]);
+            format!("{a}{b}{c}")
+        }
+        7 => "L".repeat(150 + rng.below(41)),
+        _ => format!("{}{}", *rng.pick(&["Pipe", "PIPE", "pipe", "Job-", "job-"]), rng.below(3)),
+    }
+}
+/// set by `Hx::probe` when the scratch file system folds case: ids are then lower-cased, so that two ids never differ
+/// by case only (their files would be one file)
+static FOLD_CASE: std::sync::atomic::AtomicBool = std::sync::atomic::AtomicBool::new(false);
+fn fold(s: String) -> String {
+    if FOLD_CASE.load(std::sync::atomic::Ordering::Relaxed) { s.to_lowercase() } else { s }
+}
+fn hist_pid(rng: &mut Rng) -> String {
+    fold(if rng.chance(1, 2) { (*rng.pick(HIST_PIDS)).to_string() } else { rand_pid(rng) })
+}
+/// ids that differ from `base` only by something a normalisation would remove or add: case, surrounding white space, a
+/// suffix that makes one id extend the other, a common 16-byte prefix (the length of a generated pipeline id)
+fn neighbours(base: &str) -> Vec<String> {
+    let mut v = vec![
+        base.to_uppercase(),
+        base.to_lowercase(),
+        format!(" {base}"),
+        format!("{base} "),
+        format!("{base}\n"),
+        base.trim().to_string(),
+        format!("{base}_x"),
+        format!("{base}_7"),
+        format!("checkpoint_{base}"),
+        format!("{base}_"),
+    ];
+    let mut p16: String = base.chars().take_while({
+        let mut n = 0usize;
+        move |c| {
+            n += c.len_utf8();
+            n <= 16
+        }
+    }).collect();
+    while p16.len() < 16 {
+        p16.push('f');
+    }
+    v.push(p16.clone());
+    v.push(format!("{p16}A"));
+    v.push(format!("{p16}B"));
+    let mut v: Vec<String> = v.into_iter().map(fold).collect();
+    v.retain(|x| x != base && x.len() <= 200 && !x.contains('/') && !x.contains('\0'));
+    v.sort();
+    v.dedup();
+    v
+}
+/// the pipelines of one history: a base id and up to two of its neighbours, or independent ids
+fn pid_family(rng: &mut Rng) -> Vec<String> {
+    let base = hist_pid(rng);
+    let mut v = vec![base.clone()];
+    let nb = neighbours(&base);
+    for _ in 0..rng.below(3) {
+        if rng.chance(2, 3) && !nb.is_empty() {
+            v.push(rng.pick(&nb[..]).clone());
+        } else {
+            v.push(hist_pid(rng));
+        }
+    }
+    v
+}
+
 /// look-alike / foreign names relative to a pipeline id: none of them is a well-formed checkpoint of `pid`
 /// (some are well-formed checkpoints of ANOTHER pipeline, e.g. `<pid>_x`)
-fn foreign_for(pid: &str) -> Vec<String> {
+fn foreign_for(hx: &Hx, pid: &str) -> Vec<String> {
     let mut v: Vec<String> = [
         "garbage", "5.BIN", "+5", "-1", "", "5.bin.tmp", "99999999999999999999", "18446744073709551616", "5_6", "x_50", "7_50",
         "5.Bin", "1e3", " 4", "4 ", "٣", "0x10", "5.bin", "+", "+0", "5.", ".5",
@@ -935,12 +1460,25 @@ fn foreign_for(pid: &str) -> Vec<String> {
     v.push(format!("checkpoint_{pid}"));
     v.push(format!("checkpoint_{pid}5.bin"));
     v.push(format!("xcheckpoint_{pid}_9.bin"));
-    v.push(format!("Checkpoint_{pid}_9.bin"));
+    if !hx.case_insensitive {
+        v.push(format!("Checkpoint_{pid}_9.bin"));
+        if pid.to_uppercase() != pid {
+            v.push(format!("checkpoint_{}_9.bin", pid.to_uppercase()));
+        }
+        if pid.to_lowercase() != pid {
+            v.push(format!("checkpoint_{}_9.bin", pid.to_lowercase()));
+        }
+    }
     v.push(format!("checkpoint_{pid}_9.bin "));
     v.push(format!("checkpoint_{pid}x_9.bin"));
+    v.push(format!("checkpoint_ {pid}_9.bin"));
+    v.push(format!("checkpoint_{pid} _9.bin"));
+    if pid.trim() != pid {
+        v.push(format!("checkpoint_{}_9.bin", pid.trim()));
+    }
     v.push("notes.txt".into());
     v.push(".bin".into());
-    v.retain(|n| own_stamp(pid, n).is_none());
+    v.retain(|n| own_stamp(pid, n).is_none() && hx.name_ok(n));
     v
 }
 
@@ -950,6 +1488,9 @@ fn hist_st(pid: &str, ts: u64) -> St {
 }
 fn max_str(m: Option<usize>) -> String {
     m.map_or("none".into(), |x| x.to_string())
+}
+fn tf(b: bool) -> &'static str {
+    if b { "T" } else { "F" }
 }
 
 /// oracle shared by CKPT-SAVE / CKPT-SLL: what a save of `st` (file `new_name`) may do to a directory
@@ -1026,32 +1567,43 @@ fn save_oracle(
     }
 }
 
-/// One real `save_checkpoint` in `dir`. `with_content`: the request carries every file's bytes and the answer the
-/// bytes of every file that is left (the model's file system then holds real contents), else names only.
+/// One real `save_checkpoint` of `st` in `dir`. `with_content`: the request carries every file's bytes and the answer
+/// the bytes of every file that is left (the model's file system then holds real contents), else names only.
 /// When two spellings of one stamp (`7` / `07`) are present the survivor depends on `read_dir` order; the save is
 /// still executed and judged, and compared with the model on order-independent facts (`CKPT-SAVE-TIE`).
-fn op_save(cx: &mut Ctx, dir: &Path, pid: &str, ts: u64, max: Option<usize>, with_content: bool) {
-    let dirs_before = subdirs(dir);
-    let before = listing_c(dir);
+/// A state whose file name the file system cannot hold must be refused with the directory unchanged.
+fn op_save(cx: &mut Ctx, hx: &mut Hx, dir: &Path, st: &St, max: Option<usize>, with_content: bool, enabled: bool) {
+    let pid = st.pid.as_str();
+    let ts = st.ts;
+    let before_e = scan(dir);
+    let others_before = others_of(&before_e);
+    let before = files_of(&before_e);
     let before_names = names_of(&before);
     let new_name = format!("checkpoint_{pid}_{ts}.bin");
-    if dirs_before.contains(&new_name) {
-        // the file system refuses to create a file where a directory is: not a situation the property speaks about
-        cx.count("hist:skipped(a directory has the name of the file to be saved)");
+    if before_e.iter().any(|e| e.name == new_name && e.kind != Kind::File) {
+        // the file system refuses to create a file where a directory is, and writes THROUGH a symlink: not a
+        // situation the property speaks about
+        cx.count("hist:skipped(a directory / symlink / special entry has the name of the file to be saved)");
         return;
     }
+    let name_ok = hx.name_ok(&new_name);
     let mut own_all = own_files(pid, &before_names);
     if !before_names.contains(&new_name) {
         own_all.push((ts, new_name.clone()));
     }
-    let tie = has_tie(&own_all);
-    let st = hist_st(pid, ts);
+    let tie = name_ok && has_tie(&own_all);
     let state = st.to_real();
-    let r = guarded(|| {
-        let mut m = manager(dir, max, true);
-        m.save_checkpoint(&state).map(|_| ())
-    });
-    let after = listing_c(dir);
+    let r = guarded(|| hx.mgr(dir, max, enabled).save_checkpoint(&state).map(|_| ()));
+    match &r {
+        Err(_) => hx.cached = None,
+        Ok(Err(e)) if is_nospace(e) => {
+            cx.count("env:save-dropped(no space left on the scratch file system)");
+            return;
+        }
+        _ => {}
+    }
+    let after_e = scan(dir);
+    let after = files_of(&after_e);
     let after_names = names_of(&after);
     let ok = matches!(r, Ok(Ok(())));
     let i = if tie {
@@ -1063,7 +1615,7 @@ fn op_save(cx: &mut Ctx, dir: &Path, pid: &str, ts: u64, max: Option<usize>, wit
         };
         cx.count("hist:save:tie(two spellings of one stamp)");
         cx.case(
-            format!("CKPT-SAVE-TIE max={} pid={} ts={} dir={}", max_str(max), hex(pid.as_bytes()), ts, enc_names(&before_names)),
+            format!("CKPT-SAVE-TIE max={} nmax={} pid={} ts={} dir={}", max_str(max), hx.nmax, hex(pid.as_bytes()), ts, enc_names(&before_names)),
             answer,
             true,
         )
@@ -1076,9 +1628,11 @@ fn op_save(cx: &mut Ctx, dir: &Path, pid: &str, ts: u64, max: Option<usize>, wit
         cx.count(if with_content { "hist:save:with-file-contents" } else { "hist:save:names-only" });
         cx.case(
             format!(
-                "CKPT-SAVE max={} c={} dir={} {}",
+                "CKPT-SAVE max={} c={} en={} nmax={} dir={} {}",
                 max_str(max),
-                if with_content { "T" } else { "F" },
+                tf(with_content),
+                tf(enabled),
+                hx.nmax,
                 enc_dir(&before, with_content),
                 st.fields()
             ),
@@ -1087,24 +1641,51 @@ fn op_save(cx: &mut Ctx, dir: &Path, pid: &str, ts: u64, max: Option<usize>, wit
         )
     };
     cx.count(&format!("hist:save:max={}", max_str(max)));
+    if !enabled {
+        cx.count("hist:save:by-a-disabled-manager");
+    }
+    if !name_ok {
+        cx.count("hist:save:unusable-file-name");
+        if !matches!(r, Ok(Err(_))) || after_e != before_e {
+            cx.oracle_fail(
+                i,
+                "save-with-unusable-file-name-does-not-fail-cleanly",
+                format!("pid {pid:?} ts {ts}: {}, directory {}", if ok { "Ok" } else { "panic" }, if after_e == before_e { "unchanged" } else { "CHANGED" }),
+            );
+        }
+        return;
+    }
     if !ok {
+        if !enabled && matches!(r, Ok(Err(_))) {
+            // the property does not say a DISABLED manager must save (today it does, and the model says so: a
+            // refusal shows up as a model/implementation disagreement, not as an oracle failure)
+            cx.count("hist:save:refused-by-a-disabled-manager");
+            return;
+        }
         cx.oracle_fail(i, "save-fails-or-panics", format!("pid {pid:?} ts {ts}"));
         return;
     }
-    save_oracle(cx, i, &st, max, &before, &after, &own_all);
-    dirs_oracle(cx, i, &dirs_before, &subdirs(dir));
+    if hx.reuse {
+        cx.count("hist:save:by-a-manager-that-saved-before");
+    }
+    save_oracle(cx, i, st, max, &before, &after, &own_all);
+    others_oracle(cx, i, &others_before, &others_of(&after_e));
 }
 
 /// save ; find_latest ; load on the REAL code, in a directory with arbitrary other files
-fn op_sll(cx: &mut Ctx, dir: &Path, st: &St, max: Option<usize>) {
+fn op_sll(cx: &mut Ctx, hx: &mut Hx, dir: &Path, st: &St, max: Option<usize>) {
     let pid = st.pid.as_str();
-    let dirs_before = subdirs(dir);
-    let before = listing_c(dir);
+    let before_e = scan(dir);
+    let others_before = others_of(&before_e);
+    let before = files_of(&before_e);
     let before_names = names_of(&before);
     let new_name = format!("checkpoint_{pid}_{}.bin", st.ts);
-    if dirs_before.contains(&new_name) {
-        cx.count("hist:skipped(a directory has the name of the file to be saved)");
+    if before_e.iter().any(|e| e.name == new_name && e.kind != Kind::File) {
+        cx.count("hist:skipped(a directory / symlink / special entry has the name of the file to be saved)");
         return;
+    }
+    if !hx.name_ok(&new_name) {
+        return op_save(cx, hx, dir, st, max, true, true);
     }
     let mut own_all = own_files(pid, &before_names);
     if !before_names.contains(&new_name) {
@@ -1116,11 +1697,20 @@ fn op_sll(cx: &mut Ctx, dir: &Path, st: &St, max: Option<usize>) {
     }
     let state = st.to_real();
     let r = guarded(|| -> anyhow::Result<Option<std::path::PathBuf>> {
-        let mut m = manager(dir, max, true);
+        let m = hx.mgr(dir, max, true);
         m.save_checkpoint(&state)?;
         m.find_latest_checkpoint(pid)
     });
-    let after = listing_c(dir);
+    match &r {
+        Err(_) => hx.cached = None,
+        Ok(Err(e)) if is_nospace(e) => {
+            cx.count("env:save-dropped(no space left on the scratch file system)");
+            return;
+        }
+        _ => {}
+    }
+    let after_e = scan(dir);
+    let after = files_of(&after_e);
     let (answer, latest, la): (String, Option<Option<String>>, Option<String>) = match &r {
         Err(_) => ("PANIC".into(), None, None),
         Ok(Err(_)) => ("ERR save-or-latest".into(), None, None),
@@ -1132,17 +1722,17 @@ fn op_sll(cx: &mut Ctx, dir: &Path, st: &St, max: Option<usize>) {
             (format!("OK latest={} | {}", hex(name.as_bytes()), la), Some(Some(name)), Some(la))
         }
     };
-    let i = cx.case(format!("CKPT-SLL max={} dir={} {}", max_str(max), enc_dir(&before, true), st.fields()), answer.clone(), true);
+    let i = cx.case(format!("CKPT-SLL max={} nmax={} dir={} {}", max_str(max), hx.nmax, enc_dir(&before, true), st.fields()), answer.clone(), true);
     cx.count(&format!("sll:max={}", max_str(max)));
     let Some(latest) = latest else {
         cx.oracle_fail(i, "save-or-latest-fails-or-panics", answer);
         return;
     };
     save_oracle(cx, i, st, max, &before, &after, &own_all);
-    dirs_oracle(cx, i, &dirs_before, &subdirs(dir));
+    others_oracle(cx, i, &others_before, &others_of(&after_e));
     if let Some(n) = &latest {
-        if dirs_before.contains(n) {
-            cx.oracle_fail(i, "latest-returns-a-directory", n.clone());
+        if let Some(e) = others_before.iter().find(|e| e.name == *n) {
+            cx.oracle_fail(i, if e.kind == Kind::Dir { "latest-returns-a-directory" } else { "latest-returns-a-non-file-entry" }, format!("{n:?} ({:?})", e.kind));
             return;
         }
     }
@@ -1173,7 +1763,8 @@ fn op_sll(cx: &mut Ctx, dir: &Path, st: &St, max: Option<usize>) {
                     if got.ck != compute_checksum(got.meta_string().as_bytes()) {
                         cx.oracle_fail(i, "accepted-state-with-wrong-checksum", la.clone());
                     }
-                    // every checkpoint file in these directories was written by a real save under its own name
+                    // every loadable checkpoint file in these directories was written by a real save under its own
+                    // name (hand-placed ones hold "foreign" / nothing / a symlink target's text)
                     if got.pid != pid || got.ts != wts {
                         cx.oracle_fail(i, "latest-file-holds-another-checkpoint", format!("{wname}: {}", got.fields()));
                     }
@@ -1186,11 +1777,15 @@ fn op_sll(cx: &mut Ctx, dir: &Path, st: &St, max: Option<usize>) {
     }
 }
 
-fn op_latest(cx: &mut Ctx, dir: &Path, pid: &str, enabled: bool) {
-    let names = names_of(&listing_c(dir));
+fn op_latest(cx: &mut Ctx, hx: &mut Hx, dir: &Path, pid: &str, enabled: bool) {
+    let es = scan(dir);
+    let names = names_of(&files_of(&es));
     let own = own_files(pid, &names);
     let tie = has_tie(&own);
-    let r = guarded(|| manager(dir, Some(3), enabled).find_latest_checkpoint(pid));
+    let r = guarded(|| hx.mgr(dir, Some(3), enabled).find_latest_checkpoint(pid));
+    if r.is_err() {
+        hx.cached = None;
+    }
     let got: Option<Option<String>> = match &r {
         Ok(Ok(p)) => Some(p.as_ref().and_then(|p| p.file_name()).and_then(|n| n.to_str()).map(str::to_string)),
         _ => None,
@@ -1204,11 +1799,7 @@ fn op_latest(cx: &mut Ctx, dir: &Path, pid: &str, enabled: bool) {
             _ => "NONE".to_string(),
         };
         cx.count("hist:latest:tie(two spellings of one stamp)");
-        cx.case(
-            format!("CKPT-LATEST-TIE en={} pid={} dir={}", if enabled { "T" } else { "F" }, hex(pid.as_bytes()), enc_names(&names)),
-            answer,
-            true,
-        )
+        cx.case(format!("CKPT-LATEST-TIE en={} pid={} dir={}", tf(enabled), hex(pid.as_bytes()), enc_names(&names)), answer, true)
     } else {
         let answer = match (&r, &got) {
             (Err(_), _) => "PANIC".to_string(),
@@ -1217,11 +1808,7 @@ fn op_latest(cx: &mut Ctx, dir: &Path, pid: &str, enabled: bool) {
             _ => "NONE".to_string(),
         };
         cx.count(&format!("hist:latest:{}", answer.split(' ').next().unwrap_or("?")));
-        cx.case(
-            format!("CKPT-LATEST en={} pid={} dir={}", if enabled { "T" } else { "F" }, hex(pid.as_bytes()), enc_names(&names)),
-            answer,
-            names.len() >= 2,
-        )
+        cx.case(format!("CKPT-LATEST en={} pid={} dir={}", tf(enabled), hex(pid.as_bytes()), enc_names(&names)), answer, names.len() >= 2)
     };
     let want: Option<(u64, String)> = if enabled { own.iter().max_by_key(|x| x.0).cloned() } else { None };
     match got {
@@ -1233,9 +1820,10 @@ fn op_latest(cx: &mut Ctx, dir: &Path, pid: &str, enabled: bool) {
                 g == want.as_ref().map(|x| x.1.clone())
             };
             if !same {
-                let dirs = subdirs(dir);
+                let others = others_of(&es);
                 let sig = match (&g, &want) {
-                    (Some(n), _) if dirs.contains(n) => "latest-returns-a-directory",
+                    (Some(n), _) if others.iter().any(|e| e.name == *n && e.kind == Kind::Dir) => "latest-returns-a-directory",
+                    (Some(n), _) if others.iter().any(|e| e.name == *n) => "latest-returns-a-non-file-entry",
                     (Some(n), _) if own_stamp(pid, n).is_none() => "latest-returns-foreign-or-other-pipelines-file",
                     (Some(_), Some(_)) => "latest-is-not-greatest-timestamp",
                     (None, Some(_)) => "latest-misses-existing-checkpoint",
@@ -1247,12 +1835,16 @@ fn op_latest(cx: &mut Ctx, dir: &Path, pid: &str, enabled: bool) {
     }
 }
 
-fn op_clear(cx: &mut Ctx, dir: &Path, pid: &str) {
-    let dirs_before = subdirs(dir);
-    let before_c = listing_c(dir);
+fn op_clear(cx: &mut Ctx, hx: &mut Hx, dir: &Path, pid: &str) {
+    let before_e = scan(dir);
+    let before_c = files_of(&before_e);
     let before = names_of(&before_c);
-    let r = guarded(|| manager(dir, Some(3), true).clear_checkpoints(pid));
-    let after_c = listing_c(dir);
+    let r = guarded(|| hx.mgr(dir, Some(3), true).clear_checkpoints(pid));
+    if r.is_err() {
+        hx.cached = None;
+    }
+    let after_e = scan(dir);
+    let after_c = files_of(&after_e);
     let after = names_of(&after_c);
     let answer = match &r {
         Err(_) => "PANIC".to_string(),
@@ -1285,14 +1877,111 @@ fn op_clear(cx: &mut Ctx, dir: &Path, pid: &str) {
             cx.oracle_fail(i, "clear-creates-a-file", n.clone());
         }
     }
-    dirs_oracle(cx, i, &dirs_before, &subdirs(dir));
+    others_oracle(cx, i, &others_of(&before_e), &others_of(&after_e));
 }
 
-fn place_dir(dir: &Path, name: &str) {
-    let _ = std::fs::create_dir(dir.join(name));
+/// the operations on a configured directory that does not exist (`!missing`) or is a regular file (`!notdir`).
+/// The manager is created while the directory is there (`new` creates it when enabled), then the directory goes.
+fn op_dirstate(cx: &mut Ctx, hx: &Hx, notdir: bool, enabled: bool, what: &str, pid: &str) {
+    let tmp = tmpdir();
+    let p = tmp.path().join("ck");
+    let _ = std::fs::create_dir_all(&p);
+    let mut m = manager(&p, Some(2), enabled);
+    let _ = std::fs::remove_dir(&p);
+    if notdir && std::fs::write(&p, b"not a directory").is_err() {
+        return;
+    }
+    let tok = if notdir { "!notdir" } else { "!missing" };
+    let st = hist_st(pid, 5);
+    let (req, answer): (String, String) = match what {
+        "latest" => {
+            let r = guarded(|| m.find_latest_checkpoint(pid));
+            let a = match r {
+                Err(_) => "PANIC".to_string(),
+                Ok(Err(_)) => "ERR latest".into(),
+                Ok(Ok(None)) => "NONE".into(),
+                Ok(Ok(Some(x))) => format!("SOME {}", hex(x.file_name().and_then(|n| n.to_str()).unwrap_or("?").as_bytes())),
+            };
+            (format!("CKPT-LATEST en={} pid={} dir={tok}", tf(enabled), hex(pid.as_bytes())), a)
+        }
+        "clear" => {
+            let r = guarded(|| m.clear_checkpoints(pid));
+            let a = match r {
+                Err(_) => "PANIC".to_string(),
+                Ok(Err(_)) => "ERR clear".into(),
+                Ok(Ok(())) => "OK -".into(),
+            };
+            (format!("CKPT-CLEAR pid={} dir={tok}", hex(pid.as_bytes())), a)
+        }
+        _ => {
+            let real = st.to_real();
+            let r = guarded(|| m.save_checkpoint(&real).map(|_| ()));
+            let a = match r {
+                Err(_) => "PANIC".to_string(),
+                Ok(Err(_)) => "ERR save".into(),
+                Ok(Ok(())) => "OK (saved)".into(),
+            };
+            (format!("CKPT-SAVE max=2 c=F en={} nmax={} dir={tok} {}", tf(enabled), hx.nmax, st.fields()), a)
+        }
+    };
+    let i = cx.case(req, answer.clone(), true);
+    cx.count(&format!("dirstate:{what}:{tok}"));
+    // the path is what it was: nothing was created in its place
+    let same = if notdir { std::fs::read(&p).ok().as_deref() == Some(&b"not a directory"[..]) } else { !p.exists() };
+    if answer == "PANIC" {
+        cx.oracle_fail(i, "operation-on-unusable-directory-panics", format!("{what} on {tok}"));
+    } else if !same {
+        cx.oracle_fail(i, "operation-on-unusable-directory-changes-the-path", format!("{what} on {tok}"));
+    } else if what == "latest" && !notdir && answer != "NONE" {
+        // no directory, hence no checkpoint: the lookup's answer is "none", not a failure
+        cx.oracle_fail(i, "latest-on-missing-directory-is-not-none", answer);
+    } else if what == "latest" && !enabled && answer != "NONE" {
+        cx.oracle_fail(i, "latest-of-disabled-manager-is-not-none", answer);
+    } else if what == "save" && answer != "ERR save" {
+        cx.oracle_fail(i, "save-into-unusable-directory-does-not-fail", answer);
+    }
 }
-fn place(dir: &Path, name: &str) {
-    let _ = std::fs::write(dir.join(name), b"foreign");
+
+fn place_dir(dir: &Path, name: &str) -> bool {
+    std::fs::create_dir(dir.join(name)).is_ok()
+}
+fn place_bytes(dir: &Path, name: &str, content: &[u8]) -> bool {
+    std::fs::write(dir.join(name), content).is_ok()
+}
+fn place(dir: &Path, name: &str) -> bool {
+    place_bytes(dir, name, b"foreign")
+}
+/// a symlink whose target lives OUTSIDE the checkpoint directory: to a regular file, to a directory, to nothing
+fn place_link(hx: &mut Hx, dir: &Path, name: &str, to: Kind) -> bool {
+    hx.n_targets += 1;
+    let target = hx.targets.path().join(format!("t{}", hx.n_targets));
+    let made = match to {
+        Kind::LinkToFile => std::fs::write(&target, format!("target {}", hx.n_targets)).is_ok(),
+        Kind::LinkToDir => std::fs::create_dir(&target).is_ok(),
+        _ => true,
+    };
+    made && std::os::unix::fs::symlink(&target, dir.join(name)).is_ok()
+}
+/// a socket file (a special file that needs no libc call); fails for paths longer than `sun_path`
+fn place_socket(dir: &Path, name: &str) -> bool {
+    std::os::unix::net::UnixListener::bind(dir.join(name)).is_ok()
+}
+/// plant `name` as one of: 7 bytes "foreign" (most), zero-length file, symlink to a file / a directory / nothing,
+/// socket, directory
+fn place_some_kind(cx: &mut Ctx, hx: &mut Hx, dir: &Path, name: &str) {
+    if dir.join(name).symlink_metadata().is_ok() || !hx.name_ok(name) {
+        return;
+    }
+    let (tag, ok) = match cx.rng.below(20) {
+        0 | 1 => ("zero-length-file", place_bytes(dir, name, b"")),
+        2 | 3 => ("symlink-to-file", place_link(hx, dir, name, Kind::LinkToFile)),
+        4 => ("symlink-to-directory", place_link(hx, dir, name, Kind::LinkToDir)),
+        5 => ("dangling-symlink", place_link(hx, dir, name, Kind::Dangling)),
+        6 => ("socket", place_socket(dir, name)),
+        7 => ("directory", place_dir(dir, name)),
+        _ => ("file", place(dir, name)),
+    };
+    cx.count(&if ok { format!("hist:place:{tag}") } else { format!("hist:place-failed:{tag}") });
 }
 
 fn rand_ts(rng: &mut Rng) -> u64 {
@@ -1302,6 +1991,7 @@ fn rand_ts(rng: &mut Rng) -> u64 {
         _ => rng.below(40) as u64,
     }
 }
+const MAXES: &[Option<usize>] = &[None, Some(0), Some(1), Some(2), Some(3), Some(5), Some(10)];
 
 /// a state for the save ; latest ; load composition: pipeline id given (it decides which files interact),
 /// everything else random (unicode strings, numbers at the extremes)
@@ -1313,27 +2003,27 @@ fn sll_state(rng: &mut Rng, pid: &str, ts: u64) -> St {
     st.with_valid_checksum()
 }
 
-fn run_hist(cx: &mut Ctx) {
+fn run_hist(cx: &mut Ctx, hx: &mut Hx) {
     // (1) design witnesses (DESIGN §8 #9)
     {
         let tmp = tmpdir();
         place(tmp.path(), "checkpoint_p_x_50.bin");
         for ts in [60u64, 70, 80] {
-            op_save(cx, tmp.path(), "p", ts, Some(2), true);
+            op_save(cx, hx, tmp.path(), &hist_st("p", ts), Some(2), true, true);
         }
         let tmp2 = tmpdir();
         place(tmp2.path(), "checkpoint_q_garbage.bin");
-        op_latest(cx, tmp2.path(), "q", true);
-        op_save(cx, tmp2.path(), "q", 5, Some(1), true);
-        op_latest(cx, tmp2.path(), "q", true);
-        op_clear(cx, tmp2.path(), "q");
+        op_latest(cx, hx, tmp2.path(), "q", true);
+        op_save(cx, hx, tmp2.path(), &hist_st("q", 5), Some(1), true, true);
+        op_latest(cx, hx, tmp2.path(), "q", true);
+        op_clear(cx, hx, tmp2.path(), "q");
         // out-of-order stamps, one pipeline
         let tmp3 = tmpdir();
         for ts in [50u64, 10, 40, 20, 30, 9, 100] {
-            op_save(cx, tmp3.path(), "p", ts, Some(3), true);
-            op_latest(cx, tmp3.path(), "p", true);
+            op_save(cx, hx, tmp3.path(), &hist_st("p", ts), Some(3), true, true);
+            op_latest(cx, hx, tmp3.path(), "p", true);
         }
-        op_latest(cx, tmp3.path(), "p", false);
+        op_latest(cx, hx, tmp3.path(), "p", false);
         // save ; latest ; load: newer than everything, older than everything, in between, re-save of an existing
         // stamp, retention 0 / 1 / none, another pipeline's and foreign files present
         place(tmp3.path(), "checkpoint_p_x_500.bin");
@@ -1342,44 +2032,151 @@ fn run_hist(cx: &mut Ctx) {
             let mut st = short_base_b();
             st.pid = "p".into();
             st.ts = ts;
-            op_sll(cx, tmp3.path(), &st.with_valid_checksum(), max);
+            op_sll(cx, hx, tmp3.path(), &st.with_valid_checksum(), max);
         }
         // a DIRECTORY that carries a well-formed checkpoint name is not a checkpoint: it is neither counted nor
         // returned (before the `fix:` a save with max=1 deleted the file it had just written and latest was the directory)
         let tmp5 = tmpdir();
         place_dir(tmp5.path(), "checkpoint_p_9.bin");
-        op_latest(cx, tmp5.path(), "p", true);
-        op_save(cx, tmp5.path(), "p", 5, Some(1), true);
-        op_latest(cx, tmp5.path(), "p", true);
-        op_sll(cx, tmp5.path(), &hist_st("p", 6), Some(1));
-        op_save(cx, tmp5.path(), "p", 7, Some(0), true);
+        op_latest(cx, hx, tmp5.path(), "p", true);
+        op_save(cx, hx, tmp5.path(), &hist_st("p", 5), Some(1), true, true);
+        op_latest(cx, hx, tmp5.path(), "p", true);
+        op_sll(cx, hx, tmp5.path(), &hist_st("p", 6), Some(1));
+        op_save(cx, hx, tmp5.path(), &hist_st("p", 7), Some(0), true, true);
         place_dir(tmp5.path(), "checkpoint_p_1.bin");
-        op_sll(cx, tmp5.path(), &hist_st("p", 3), Some(2));
-        op_clear(cx, tmp5.path(), "p");
+        op_sll(cx, hx, tmp5.path(), &hist_st("p", 3), Some(2));
+        op_clear(cx, hx, tmp5.path(), "p");
         // two spellings of one stamp: the save is executed and judged, the model compared on order-independent facts
         let tmp4 = tmpdir();
         place(tmp4.path(), "checkpoint_p_07.bin");
-        op_save(cx, tmp4.path(), "p", 7, Some(1), true);
-        op_latest(cx, tmp4.path(), "p", true);
+        op_save(cx, hx, tmp4.path(), &hist_st("p", 7), Some(1), true, true);
+        op_latest(cx, hx, tmp4.path(), "p", true);
         place(tmp4.path(), "checkpoint_p_007.bin");
-        op_save(cx, tmp4.path(), "p", 3, Some(2), true);
-        op_latest(cx, tmp4.path(), "p", true);
-        op_save(cx, tmp4.path(), "p", 9, Some(0), true);
+        op_save(cx, hx, tmp4.path(), &hist_st("p", 3), Some(2), true, true);
+        op_latest(cx, hx, tmp4.path(), "p", true);
+        op_save(cx, hx, tmp4.path(), &hist_st("p", 9), Some(0), true, true);
+    }
+    // (1a) what counts as a checkpoint FILE: a well-formed name planted as each kind of entry, with the greatest stamp
+    // (99) and with the smallest (0). Regular files — also empty ones — and symlinks to regular files are checkpoints
+    // (`Path::is_file` follows symlinks); directories, symlinks to directories, dangling symlinks and sockets are not.
+    {
+        let mut n = 0usize;
+        for kind in 0..7 {
+            for stamp in [99u64, 0] {
+                let tmp = tmpdir();
+                let dir = tmp.path();
+                let name = format!("checkpoint_p_{stamp}.bin");
+                let ok = match kind {
+                    0 => place_bytes(dir, &name, b""),
+                    1 => place_link(hx, dir, &name, Kind::LinkToFile),
+                    2 => place_link(hx, dir, &name, Kind::LinkToDir),
+                    3 => place_link(hx, dir, &name, Kind::Dangling),
+                    4 => place_socket(dir, &name),
+                    5 => place_dir(dir, &name),
+                    _ => place(dir, &name),
+                };
+                if !ok {
+                    cx.count("hist:place-failed:kind-witness");
+                    continue;
+                }
+                place(dir, "checkpoint_p_x_7.bin");
+                op_latest(cx, hx, dir, "p", true);
+                op_save(cx, hx, dir, &hist_st("p", 5), Some(1), true, true);
+                op_latest(cx, hx, dir, "p", true);
+                op_sll(cx, hx, dir, &hist_st("p", 6), Some(2));
+                op_save(cx, hx, dir, &hist_st("p", 4), Some(0), true, true);
+                op_sll(cx, hx, dir, &hist_st("p", 3), None);
+                op_clear(cx, hx, dir, "p");
+                n += 1;
+            }
+        }
+        cx.exhaustive_blocks.push(format!(
+            "CKPT-HIST: a well-formed checkpoint name (greatest stamp 99 / smallest stamp 0) planted as each of 7 kinds of directory entry (empty file, symlink to a file, symlink to a directory, dangling symlink, socket, directory, 7-byte file) next to another pipeline's file: latest, save max=1, latest, save;latest;load max=2, save max=0, save;latest;load max=None, clear ({n} directories)"
+        ));
+    }
+    // (1c) pipeline ids the file system cannot hold in one entry name: `/` (with and without a matching
+    // sub-directory — before the `fix:` the save then went INTO the sub-directory and escaped retention and lookup),
+    // NUL, names longer than NAME_MAX (boundary: exactly NAME_MAX is fine). Expected: `Err`, directory unchanged.
+    {
+        let long_ok = "n".repeat(hx.nmax - "checkpoint__5.bin".len());
+        let long_bad = format!("{long_ok}n");
+        let ids: Vec<String> = vec![
+            "a/b".into(), "a/".into(), "/b".into(), "/".into(), "../x".into(), "a/b/c".into(), "..".into(), ".".into(),
+            "a\0b".into(), "\0".into(), "x".repeat(300), "é".repeat(150), long_ok, long_bad, "a\\b".into(),
+        ];
+        let mut n = 0usize;
+        for pid in &ids {
+            for with_sub in [false, true] {
+                let tmp = tmpdir();
+                let dir = tmp.path();
+                place(dir, "checkpoint_a_3.bin");
+                place(dir, "notes.txt");
+                if with_sub {
+                    // every directory the OS would walk through for this id
+                    let name = format!("checkpoint_{pid}_5.bin");
+                    if let Some((parent, _)) = name.rsplit_once('/') {
+                        if !parent.contains('\0') {
+                            let _ = std::fs::create_dir_all(dir.join(parent.trim_start_matches('/')));
+                        }
+                    } else {
+                        continue;
+                    }
+                }
+                for (ts, max) in [(5u64, Some(1usize)), (6, Some(1)), (7, None)] {
+                    op_save(cx, hx, dir, &hist_st(pid, ts), max, true, ts != 6);
+                }
+                op_latest(cx, hx, dir, pid, true);
+                op_clear(cx, hx, dir, pid);
+                n += 1;
+            }
+            one_enc(cx, hx, &hist_st(pid, 9), true);
+        }
+        cx.exhaustive_blocks.push(format!(
+            "CKPT-HIST: {} pipeline ids at / beyond what one entry name can hold (`/` in 8 positions incl. `..`, NUL, 300 bytes, name length exactly NAME_MAX = {} and NAME_MAX+1, backslash), each alone and with the sub-directories the OS would resolve the `/` into: three saves (max 1, 1, None; one by a disabled manager), latest, clear, and a CKPT-ENC ({n} directories)",
+            ids.len(),
+            hx.nmax
+        ));
+    }
+    // (1d) the configured directory is missing / is a regular file
+    for notdir in [false, true] {
+        for enabled in [true, false] {
+            for what in ["latest", "clear", "save"] {
+                op_dirstate(cx, hx, notdir, enabled, what, "p");
+            }
+        }
+    }
+    // (1e) the default retention (`CheckpointConfig::default().max_checkpoints`, 10) under ONE manager that performs
+    // the whole history (the real usage), ascending then out-of-order stamps
+    {
+        let dmax = CheckpointConfig::default().max_checkpoints;
+        hx.reuse = true;
+        let tmp = tmpdir();
+        for ts in (1..=13u64).chain([3, 40, 2, 39, 41, 0]) {
+            op_save(cx, hx, tmp.path(), &hist_st("deadbeefdeadbeef", ts), dmax, ts % 4 == 0, true);
+        }
+        op_latest(cx, hx, tmp.path(), "deadbeefdeadbeef", true);
+        op_sll(cx, hx, tmp.path(), &hist_st("deadbeefdeadbeef", 38), dmax);
+        hx.reuse = false;
+        hx.cached = None;
     }
     // (1b) every look-alike name, alone and all together, for several pipeline ids
     let mut n_look = 0usize;
-    for pid in ["p", "p_x", "", "a.b", "7"] {
-        let look = foreign_for(pid);
+    let look_pids = ["p", "p_x", "", "a.b", "7", "Pq", " p ", "0123456789abcdef0"];
+    for pid in look_pids {
+        let look = foreign_for(hx, pid);
         for f in &look {
             let tmp = tmpdir();
-            place(tmp.path(), f);
-            op_latest(cx, tmp.path(), pid, true);
-            op_save(cx, tmp.path(), pid, 1, Some(0), true);
-            op_save(cx, tmp.path(), pid, 7, Some(1), true);
-            op_latest(cx, tmp.path(), pid, true);
+            if !place(tmp.path(), f) {
+                cx.count("hist:place-failed:look-alike");
+                continue;
+            }
+            op_latest(cx, hx, tmp.path(), pid, true);
+            op_save(cx, hx, tmp.path(), &hist_st(pid, 1), Some(0), true, true);
+            op_save(cx, hx, tmp.path(), &hist_st(pid, 7), Some(1), true, true);
+            op_latest(cx, hx, tmp.path(), pid, true);
             let st = sll_state(&mut cx.rng, pid, 8);
-            op_sll(cx, tmp.path(), &st, Some(1));
-            op_clear(cx, tmp.path(), pid);
+            op_sll(cx, hx, tmp.path(), &st, Some(1));
+            op_clear(cx, hx, tmp.path(), pid);
             n_look += 1;
         }
         let tmp = tmpdir();
@@ -1387,15 +2184,16 @@ fn run_hist(cx: &mut Ctx) {
             place(tmp.path(), f);
         }
         for (ts, max) in [(5u64, Some(2usize)), (3, Some(2)), (9, Some(2)), (4, Some(1)), (2, Some(0)), (6, None)] {
-            op_save(cx, tmp.path(), pid, ts, max, true);
-            op_latest(cx, tmp.path(), pid, true);
+            op_save(cx, hx, tmp.path(), &hist_st(pid, ts), max, true, true);
+            op_latest(cx, hx, tmp.path(), pid, true);
         }
         let st = sll_state(&mut cx.rng, pid, 7);
-        op_sll(cx, tmp.path(), &st, Some(2));
-        op_clear(cx, tmp.path(), pid);
+        op_sll(cx, hx, tmp.path(), &st, Some(2));
+        op_clear(cx, hx, tmp.path(), pid);
     }
     cx.exhaustive_blocks.push(format!(
-        "CKPT-HIST: each of the look-alike file names (non-numeric / signed / overflowing / upper-case / nested stamps, other pipelines extending the id, ...) alone in a directory x 5 pipeline ids: latest, save max=0, save max=1, latest, save;latest;load, clear ({n_look} directories, file contents carried), plus all of them together under a 6-save history"
+        "CKPT-HIST: each of the look-alike file names (non-numeric / signed / overflowing / upper-case / nested stamps, other pipelines extending the id, case / white-space variants of the id, ...) alone in a directory x {} pipeline ids (incl. mixed case, surrounding spaces, 17 bytes): latest, save max=0, save max=1, latest, save;latest;load, clear ({n_look} directories, file contents carried), plus all of them together under a 6-save history",
+        look_pids.len()
     ));
     // (2) exhaustive small scope: all save histories of length <= L over 2 pids x 3 stamps, every max in {None,0,1,2}
     let len = if cx.tier == crate::ctx::Tier::Quick { 4 } else { 5 };
@@ -1412,19 +2210,23 @@ fn run_hist(cx: &mut Ctx) {
                 }
                 let tmp = tmpdir();
                 place(tmp.path(), "checkpoint_p_zz.bin");
+                // every other history is performed by ONE manager
+                hx.reuse = count % 2 == 1;
                 for &k in &idx[..l] {
                     let (pid, ts) = alphabet[k];
                     // file contents travel with the short histories (the long ones are the bulk: names only)
-                    op_save(cx, tmp.path(), pid, ts, max, l <= 3);
+                    op_save(cx, hx, tmp.path(), &hist_st(pid, ts), max, l <= 3, true);
                 }
-                op_latest(cx, tmp.path(), "p", true);
-                op_latest(cx, tmp.path(), "p_x", true);
+                op_latest(cx, hx, tmp.path(), "p", true);
+                op_latest(cx, hx, tmp.path(), "p_x", true);
                 if l <= 3 {
                     // then save ; latest ; load of a state that is newer (5) / older (0) than some of what is there
                     let (pid, ts) = if count % 2 == 0 { ("p", 5) } else { ("p_x", 0) };
-                    op_sll(cx, tmp.path(), &hist_st(pid, ts), max);
+                    op_sll(cx, hx, tmp.path(), &hist_st(pid, ts), max);
                     n_sll += 1;
                 }
+                hx.reuse = false;
+                hx.cached = None;
                 count += 1;
             }
             let mut j = 0;
@@ -1442,32 +2244,34 @@ fn run_hist(cx: &mut Ctx) {
         }
     }
     cx.exhaustive_blocks.push(format!(
-        "CKPT-HIST: all save histories of length <= {len} over pipelines {{p, p_x}} x stamps {{1,2,10}} with a foreign file present, max in {{None,0,1,2}}, latest of both pipelines after each ({count} histories; those of length <= 3 with file contents and followed by a real save;latest;load: {n_sll})"
+        "CKPT-HIST: all save histories of length <= {len} over pipelines {{p, p_x}} x stamps {{1,2,10}} with a foreign file present, max in {{None,0,1,2}}, latest of both pipelines after each ({count} histories, every other one performed by a single manager; those of length <= 3 with file contents and followed by a real save;latest;load: {n_sll})"
     ));
-    // (2b) save ; latest ; load of random states (unicode, extremes) into small random directories
+    // (2b) save ; latest ; load of random states (unicode, extremes) into small random directories; pipeline ids:
+    // half from the fixed list, half random (mixed case, white space, long, unicode) with their neighbours around
     let rounds = cx.budget(300, 6000);
     for _ in 0..rounds {
         let tmp = tmpdir();
         let dir = tmp.path();
-        let pid = *cx.rng.pick(HIST_PIDS);
-        let max = *cx.rng.pick(&[None, Some(0usize), Some(1), Some(2), Some(3)]);
+        let fam = pid_family(&mut cx.rng);
+        let pid = fam[0].clone();
+        let max = *cx.rng.pick(MAXES);
         for _ in 0..cx.rng.below(3) {
-            let look = foreign_for(pid);
+            let look = foreign_for(hx, &pid);
             let f: String = cx.rng.pick(&look[..]).clone();
             place(dir, &f);
         }
         for _ in 0..cx.rng.below(4) {
-            let other = if cx.rng.chance(2, 3) { pid } else { *cx.rng.pick(HIST_PIDS) };
+            let other = if cx.rng.chance(1, 2) { pid.clone() } else { cx.rng.pick(&fam[..]).clone() };
             let ts = rand_ts(&mut cx.rng);
-            op_save(cx, dir, other, ts, max, true);
+            op_save(cx, hx, dir, &hist_st(&other, ts), max, true, true);
         }
         for _ in 0..1 + cx.rng.below(3) {
             let ts = rand_ts(&mut cx.rng);
-            let mut st = sll_state(&mut cx.rng, pid, ts);
+            let mut st = sll_state(&mut cx.rng, &pid, ts);
             if cx.rng.chance(1, 12) {
                 st.ck = rand_string(&mut cx.rng, 70, false, false);
             }
-            op_sll(cx, dir, &st, max);
+            op_sll(cx, hx, dir, &st, max);
         }
     }
     // (2c) two spellings of one stamp (`7`, `07`, `007`): the saves and look-ups are executed and judged by the
@@ -1477,98 +2281,106 @@ fn run_hist(cx: &mut Ctx) {
     for _ in 0..rounds {
         let tmp = tmpdir();
         let dir = tmp.path();
-        let pid = *cx.rng.pick(HIST_PIDS);
-        let mut max = *cx.rng.pick(&[None, Some(0usize), Some(1), Some(2), Some(3)]);
+        let pid = hist_pid(&mut cx.rng);
+        let mut max = *cx.rng.pick(MAXES);
         for _ in 0..1 + cx.rng.below(3) {
             let zeros = "0".repeat(1 + cx.rng.below(2));
             let t = cx.rng.below(5);
             place(dir, &format!("checkpoint_{pid}_{zeros}{t}.bin"));
         }
         if cx.rng.chance(1, 2) {
-            let look = foreign_for(pid);
+            let look = foreign_for(hx, &pid);
             let f: String = cx.rng.pick(&look[..]).clone();
             place(dir, &f);
         }
         for _ in 0..2 + cx.rng.below(4) {
             match cx.rng.below(4) {
-                0 => op_latest(cx, dir, pid, true),
-                1 => max = *cx.rng.pick(&[None, Some(0usize), Some(1), Some(2), Some(3)]),
+                0 => op_latest(cx, hx, dir, &pid, true),
+                1 => max = *cx.rng.pick(MAXES),
                 _ => {
                     let ts = cx.rng.below(5) as u64;
-                    op_save(cx, dir, pid, ts, max, false);
+                    op_save(cx, hx, dir, &hist_st(&pid, ts), max, false, true);
                 }
             }
         }
-        op_latest(cx, dir, pid, true);
+        op_latest(cx, hx, dir, &pid, true);
     }
-    // (3) random histories
+    // (3) random histories over a family of pipeline ids (a base id and ids a normalisation would confuse with it)
     let rounds = cx.budget(1000, 20000);
     for _ in 0..rounds {
         let tmp = tmpdir();
         let dir = tmp.path();
-        let npids = 1 + cx.rng.below(3);
-        let pids: Vec<&str> = (0..npids).map(|_| *cx.rng.pick(HIST_PIDS)).collect();
-        let mut max = *cx.rng.pick(&[None, Some(0usize), Some(1), Some(2), Some(3), Some(5)]);
-        // one history in three carries the file contents through the model
+        let pids = pid_family(&mut cx.rng);
+        let mut max = *cx.rng.pick(MAXES);
+        // one history in three carries the file contents through the model; one in two is performed by one manager
         let with_content = cx.rng.chance(1, 3);
+        hx.reuse = cx.rng.chance(1, 2);
+        if pids.iter().any(|p| !HIST_PIDS.contains(&p.as_str())) {
+            cx.count("hist:history-with-random-pipeline-ids");
+        }
         for _ in 0..cx.rng.below(4) {
-            let look = foreign_for(*cx.rng.pick(&pids));
+            let look = foreign_for(hx, cx.rng.pick(&pids[..]).as_str());
             let f: String = cx.rng.pick(&look[..]).clone();
             place(dir, &f);
             cx.count("hist:place-foreign");
         }
         if cx.rng.chance(1, 6) {
             let ts = rand_ts(&mut cx.rng);
-            place_dir(dir, &format!("checkpoint_{}_{ts}.bin", *cx.rng.pick(&pids)));
+            let p = cx.rng.pick(&pids[..]).clone();
+            place_dir(dir, &format!("checkpoint_{p}_{ts}.bin"));
             cx.count("hist:place-directory-with-checkpoint-name");
         }
         let ops = 1 + cx.rng.below(12);
         for _ in 0..ops {
-            let pid = *cx.rng.pick(&pids);
+            let pid = cx.rng.pick(&pids[..]).clone();
             match cx.rng.below(13) {
                 0..=5 => {
                     let ts = rand_ts(&mut cx.rng);
-                    op_save(cx, dir, pid, ts, max, with_content);
+                    let en = !cx.rng.chance(1, 10);
+                    op_save(cx, hx, dir, &hist_st(&pid, ts), max, with_content, en);
                 }
                 6 | 7 => {
                     let en = !cx.rng.chance(1, 8);
-                    op_latest(cx, dir, pid, en);
+                    op_latest(cx, hx, dir, &pid, en);
                 }
-                8 => op_clear(cx, dir, pid),
+                8 => op_clear(cx, hx, dir, &pid),
                 9 => {
-                    let look = foreign_for(pid);
+                    let look = foreign_for(hx, &pid);
                     let f: String = cx.rng.pick(&look[..]).clone();
                     place(dir, &f);
                     cx.count("hist:place-foreign");
                 }
                 10 => {
-                    // a well-formed file of a (possibly different) pipeline placed by hand, sometimes with leading zeros
-                    let other = if cx.rng.chance(1, 2) { pid } else { *cx.rng.pick(HIST_PIDS) };
+                    // a well-formed name of a (possibly different) pipeline planted by hand — as a 7-byte file, an empty
+                    // file, a symlink, a socket or a directory —, sometimes with leading zeros
+                    let other = if cx.rng.chance(1, 2) { pid.clone() } else { hist_pid(&mut cx.rng) };
                     let zero = cx.rng.chance(1, 3);
                     // a second spelling of a small stamp of one of the history's own pipelines => ties do occur
                     let ts = if zero && cx.rng.chance(2, 3) { cx.rng.below(6) as u64 } else { rand_ts(&mut cx.rng) };
                     let name = if zero { format!("checkpoint_{other}_0{ts}.bin") } else { format!("checkpoint_{other}_{ts}.bin") };
-                    place(dir, &name);
+                    place_some_kind(cx, hx, dir, &name);
                     cx.count("hist:place-wellformed");
                 }
                 11 => {
                     let ts = rand_ts(&mut cx.rng);
-                    let st = sll_state(&mut cx.rng, pid, ts);
-                    op_sll(cx, dir, &st, max);
+                    let st = sll_state(&mut cx.rng, &pid, ts);
+                    op_sll(cx, hx, dir, &st, max);
                 }
                 _ => {
-                    max = *cx.rng.pick(&[None, Some(0usize), Some(1), Some(2), Some(3), Some(5)]);
+                    max = *cx.rng.pick(MAXES);
                     cx.count("hist:change-max");
                 }
             }
         }
+        hx.reuse = false;
+        hx.cached = None;
     }
 }
 
 // ───────────────────────────── should_checkpoint (clock-free policies) ─────────────────────────────
 
 fn run_policy(cx: &mut Ctx) {
-    use std::time::{Duration, SystemTime};
+    use std::time::{Duration, Instant, SystemTime};
     let ns: Vec<usize> = vec![0, 1, 2, 3, 5];
     let mut pols: Vec<(String, CheckpointPolicy)> = vec![("barrier".into(), CheckpointPolicy::AfterEveryBarrier)];
     for &n in &ns {
@@ -1580,8 +2392,10 @@ fn run_policy(cx: &mut Ctx) {
         pols.push((format!("hybrid:F:{secs}"), CheckpointPolicy::Hybrid { barriers: false, interval_secs: secs }));
     }
     // the last checkpoint time relative to "now": never / 10 s ago / 100 s in the future (clock went backwards).
-    // Margins are seconds wide, the call takes microseconds, so the answers do not depend on timing.
+    // Margins are seconds wide and the call takes microseconds; an execution during which the process was stalled
+    // for more than a second, or the wall clock jumped by more than a second, is repeated (up to 20 times).
     let lasts: Vec<&str> = vec!["none", "ago:10", "future:100"];
+    let mut repeated = 0usize;
     for enabled in [true, false] {
         for barrier in [true, false] {
             for idx in 0..8usize {
@@ -1594,36 +2408,42 @@ fn run_policy(cx: &mut Ctx) {
                         if clocked && idx > 1 {
                             continue;
                         }
-                        let r = guarded(|| {
-                            let mut m = CheckpointManager::new(CheckpointConfig {
-                                enabled,
-                                directory: std::env::temp_dir(),
-                                policy: *pol,
-                                auto_recover: false,
-                                max_checkpoints: None,
-                            })
-                            .expect("manager");
-                            m.last_checkpoint_time = match *last {
-                                "ago:10" => Some(SystemTime::now() - Duration::from_secs(10)),
-                                "future:100" => Some(SystemTime::now() + Duration::from_secs(100)),
-                                _ => None,
+                        let mut a = "PANIC";
+                        for attempt in 0..20 {
+                            let (i0, w0) = (Instant::now(), SystemTime::now());
+                            let r = guarded(|| {
+                                let mut m = CheckpointManager::new(CheckpointConfig {
+                                    enabled,
+                                    directory: std::env::temp_dir(),
+                                    policy: *pol,
+                                    auto_recover: false,
+                                    max_checkpoints: None,
+                                })
+                                .expect("manager");
+                                m.last_checkpoint_time = match *last {
+                                    "ago:10" => Some(SystemTime::now() - Duration::from_secs(10)),
+                                    "future:100" => Some(SystemTime::now() + Duration::from_secs(100)),
+                                    _ => None,
+                                };
+                                m.should_checkpoint(idx, barrier, 10)
+                            });
+                            a = match r {
+                                Ok(true) => "T",
+                                Ok(false) => "F",
+                                Err(_) => "PANIC",
                             };
-                            m.should_checkpoint(idx, barrier, 10)
-                        });
-                        let a = match r {
-                            Ok(true) => "T",
-                            Ok(false) => "F",
-                            Err(_) => "PANIC",
-                        };
+                            let mono = i0.elapsed();
+                            let wall = SystemTime::now().duration_since(w0).unwrap_or(Duration::from_secs(u64::MAX / 4));
+                            let jump = if wall > mono { wall - mono } else { mono - wall };
+                            if !clocked || (mono < Duration::from_secs(1) && jump < Duration::from_secs(1)) {
+                                break;
+                            }
+                            if attempt + 1 < 20 {
+                                repeated += 1;
+                            }
+                        }
                         let i = cx.case(
-                            format!(
-                                "CKPT-POLICY en={} pol={} idx={} barrier={} last={}",
-                                if enabled { "T" } else { "F" },
-                                name,
-                                idx,
-                                if barrier { "T" } else { "F" },
-                                last
-                            ),
+                            format!("CKPT-POLICY en={} pol={} idx={} barrier={} last={}", tf(enabled), name, idx, tf(barrier), last),
                             a.into(),
                             false,
                         );
@@ -1636,32 +2456,47 @@ fn run_policy(cx: &mut Ctx) {
             }
         }
     }
+    if repeated > 0 {
+        cx.notes.push(format!("{repeated} clock-dependent policy executions were repeated (the call took > 1 s or the wall clock jumped)"));
+    }
 }
 
 pub fn run(cx: &mut Ctx) {
+    let mut hx = Hx::probe(cx);
     // CKPT-ENC: corpus, then random states
-    one_enc(cx, &short_base_a(), true);
-    one_enc(cx, &short_base_b(), true);
+    one_enc(cx, &hx, &short_base_a(), true);
+    one_enc(cx, &hx, &short_base_b(), true);
     {
         let mut wrong = short_base_a();
         wrong.ck = "00".repeat(32);
-        one_enc(cx, &wrong, true);
+        one_enc(cx, &hx, &wrong, true);
         for &n in NUM_EDGES {
             let s = St { idx: n, ts: n, pc: n, tn: n, ..short_base_a() }.with_valid_checksum();
-            one_enc(cx, &s, true);
+            one_enc(cx, &hx, &s, true);
+        }
+        // the genuine checksum padded: must not load
+        for ck in [format!("{} ", short_base_a().ck), format!(" {}", short_base_a().ck), format!("{0}{0}", short_base_a().ck)] {
+            one_enc(cx, &hx, &St { ck, ..short_base_a() }, true);
+        }
+        // strings beyond 64 KiB (5-byte length prefix): valid files in every tier
+        for (n_em, n_lnt) in [(70001usize, 65535usize), (65536, 65536)] {
+            let s = St { em: "e".repeat(n_em), lnt: "\u{e9}".repeat(n_lnt / 2), ..short_base_a() }.with_valid_checksum();
+            one_enc(cx, &hx, &s, true);
         }
     }
     let rounds = cx.budget(600, 8000);
     for k in 0..rounds {
         let big = cx.tier != crate::ctx::Tier::Quick && k % 100 == 0;
         let max_str = if cx.rng.chance(1, 6) { 4096 } else { 64 };
-        let mut st = rand_state(&mut cx.rng, max_str, true, big);
+        // one pipeline id in twelve is NOT restricted to what a file name can hold (`/`, NUL, up to 4 KiB)
+        let pid_safe = !cx.rng.chance(1, 12);
+        let mut st = rand_state(&mut cx.rng, max_str, pid_safe, big);
         if cx.rng.chance(1, 10) {
             st.ck = rand_string(&mut cx.rng, 80, false, false);
         }
-        one_enc(cx, &st, true);
+        one_enc(cx, &hx, &st, true);
     }
     run_dec(cx);
-    run_hist(cx);
+    run_hist(cx, &mut hx);
     run_policy(cx);
 }
